@@ -1,4 +1,9 @@
 
+(** val implb : bool -> bool -> bool **)
+
+let implb b1 b2 =
+  if b1 then b2 else true
+
 (** val negb : bool -> bool **)
 
 let negb = function
@@ -161,6 +166,14 @@ type z =
 
 module Pos =
  struct
+  type mask =
+  | IsNul
+  | IsPos of positive
+  | IsNeg
+ end
+
+module Coq_Pos =
+ struct
   (** val succ : positive -> positive **)
 
   let rec succ = function
@@ -206,6 +219,72 @@ module Pos =
        | XI q -> XI (succ q)
        | XO q -> XO (succ q)
        | XH -> XI XH)
+
+  (** val pred_double : positive -> positive **)
+
+  let rec pred_double = function
+  | XI p -> XI (XO p)
+  | XO p -> XI (pred_double p)
+  | XH -> XH
+
+  type mask = Pos.mask =
+  | IsNul
+  | IsPos of positive
+  | IsNeg
+
+  (** val succ_double_mask : mask -> mask **)
+
+  let succ_double_mask = function
+  | IsNul -> IsPos XH
+  | IsPos p -> IsPos (XI p)
+  | IsNeg -> IsNeg
+
+  (** val double_mask : mask -> mask **)
+
+  let double_mask = function
+  | IsPos p -> IsPos (XO p)
+  | x0 -> x0
+
+  (** val double_pred_mask : positive -> mask **)
+
+  let double_pred_mask = function
+  | XI p -> IsPos (XO (XO p))
+  | XO p -> IsPos (XO (pred_double p))
+  | XH -> IsNul
+
+  (** val sub_mask : positive -> positive -> mask **)
+
+  let rec sub_mask x y =
+    match x with
+    | XI p ->
+      (match y with
+       | XI q -> double_mask (sub_mask p q)
+       | XO q -> succ_double_mask (sub_mask p q)
+       | XH -> IsPos (XO p))
+    | XO p ->
+      (match y with
+       | XI q -> succ_double_mask (sub_mask_carry p q)
+       | XO q -> double_mask (sub_mask p q)
+       | XH -> IsPos (pred_double p))
+    | XH -> (match y with
+             | XH -> IsNul
+             | _ -> IsNeg)
+
+  (** val sub_mask_carry : positive -> positive -> mask **)
+
+  and sub_mask_carry x y =
+    match x with
+    | XI p ->
+      (match y with
+       | XI q -> succ_double_mask (sub_mask_carry p q)
+       | XO q -> double_mask (sub_mask p q)
+       | XH -> IsPos (pred_double p))
+    | XO p ->
+      (match y with
+       | XI q -> double_mask (sub_mask_carry p q)
+       | XO q -> succ_double_mask (sub_mask_carry p q)
+       | XH -> double_pred_mask p)
+    | XH -> IsNeg
 
   (** val mul : positive -> positive -> positive **)
 
@@ -326,7 +405,20 @@ module N =
     | N0 -> m0
     | Npos p -> (match m0 with
                  | N0 -> n0
-                 | Npos q -> Npos (Pos.add p q))
+                 | Npos q -> Npos (Coq_Pos.add p q))
+
+  (** val sub : n -> n -> n **)
+
+  let sub n0 m0 =
+    match n0 with
+    | N0 -> N0
+    | Npos n' ->
+      (match m0 with
+       | N0 -> n0
+       | Npos m' ->
+         (match Coq_Pos.sub_mask n' m' with
+          | Coq_Pos.IsPos p -> Npos p
+          | _ -> N0))
 
   (** val compare : n -> n -> comparison **)
 
@@ -337,7 +429,7 @@ module N =
              | Npos _ -> Lt)
     | Npos n' -> (match m0 with
                   | N0 -> Gt
-                  | Npos m' -> Pos.compare n' m')
+                  | Npos m' -> Coq_Pos.compare n' m')
 
   (** val eqb : n -> n -> bool **)
 
@@ -348,7 +440,7 @@ module N =
              | Npos _ -> false)
     | Npos p -> (match m0 with
                  | N0 -> false
-                 | Npos q -> Pos.eqb p q)
+                 | Npos q -> Coq_Pos.eqb p q)
 
   (** val leb : n -> n -> bool **)
 
@@ -368,25 +460,31 @@ module N =
 
   let to_nat = function
   | N0 -> O
-  | Npos p -> Pos.to_nat p
+  | Npos p -> Coq_Pos.to_nat p
 
   (** val of_nat : nat -> n **)
 
   let of_nat = function
   | O -> N0
-  | S n' -> Npos (Pos.of_succ_nat n')
+  | S n' -> Npos (Coq_Pos.of_succ_nat n')
 
   (** val of_uint : uint -> n **)
 
   let of_uint =
-    Pos.of_uint
+    Coq_Pos.of_uint
 
   (** val to_uint : n -> uint **)
 
   let to_uint = function
   | N0 -> D0 Nil
-  | Npos p -> Pos.to_uint p
+  | Npos p -> Coq_Pos.to_uint p
  end
+
+(** val hd_error : 'a1 list -> 'a1 option **)
+
+let hd_error = function
+| [] -> None
+| x :: _ -> Some x
 
 (** val nth_error : 'a1 list -> nat -> 'a1 option **)
 
@@ -469,10 +567,10 @@ module Z =
              | Z0 -> true
              | _ -> false)
     | Zpos p -> (match y with
-                 | Zpos q -> Pos.eqb p q
+                 | Zpos q -> Coq_Pos.eqb p q
                  | _ -> false)
     | Zneg p -> (match y with
-                 | Zneg q -> Pos.eqb p q
+                 | Zneg q -> Coq_Pos.eqb p q
                  | _ -> false)
 
   (** val of_N : n -> z **)
@@ -2431,8 +2529,8 @@ let label_probe_fuel fs =
 (** val gen_label : string -> string m **)
 
 let gen_label base =
-  bind (gets (label_exists base)) (fun ex ->
-    if ex
+  bind (gets (label_exists base)) (fun ex0 ->
+    if ex0
     then bind (gets label_probe_fuel) (fun fuel -> label_probe fuel base)
     else bind (set_label_name base) (fun _ -> ret base))
 
@@ -2586,8 +2684,8 @@ let expr_value g e = function
            if negb ok
            then ret None
            else (match alookup (type_name val0.v_ty) g.g_types with
-                 | Some declared ->
-                   if negb (sem_ty_eqb val0.v_ty declared)
+                 | Some declared0 ->
+                   if negb (sem_ty_eqb val0.v_ty declared0)
                    then bind
                           (add_error { e_kind = EWrongExpressionType; e_val =
                             (Some x.iname); e_loc = (iloc x) }) (fun _ ->
@@ -2658,9 +2756,9 @@ let rec expression g fuel e =
     globals -> nat -> ident -> bool -> ast_ty option -> expr -> unit m **)
 
 let let_binding g fuel =
-  let ex = expression g fuel in
+  let ex0 = expression g fuel in
   (fun x mut ty e ->
-  bind (ex e) (fun r ->
+  bind (ex0 e) (fun r ->
     match r with
     | Some er ->
       let mismatch =
@@ -2689,9 +2787,9 @@ let let_binding g fuel =
 (** val binding : globals -> nat -> ident -> expr -> unit m **)
 
 let binding g fuel =
-  let ex = expression g fuel in
+  let ex0 = expression g fuel in
   (fun x e ->
-  bind (ex e) (fun r ->
+  bind (ex0 e) (fun r ->
     match r with
     | Some er ->
       bind (lookup_value x.iname) (fun vs ->
@@ -2712,17 +2810,17 @@ let binding g fuel =
 (** val call_stmt : globals -> nat -> ident -> expr list -> unit m **)
 
 let call_stmt g fuel =
-  let ex = expression g fuel in
-  (fun f args -> bind (function_call g ex f args) (fun _ -> ret ()))
+  let ex0 = expression g fuel in
+  (fun f args -> bind (function_call g ex0 f args) (fun _ -> ret ()))
 
 (** val condition_expression : globals -> nat -> lcond -> n m **)
 
 let condition_expression g fuel =
-  let ex = expression g fuel in
+  let ex0 = expression g fuel in
   let rec condition_expression0 = function
   | LC (l, cmp, r, next) ->
-    bind (ex l) (fun lres ->
-      bind (ex r) (fun rres ->
+    bind (ex0 l) (fun lres ->
+      bind (ex0 r) (fun rres ->
         match lres with
         | Some lr ->
           (match rres with
@@ -2765,12 +2863,12 @@ let condition_expression g fuel =
     globals -> nat -> cond -> string -> string -> string -> bool -> unit m **)
 
 let if_condition_calculation g fuel =
-  let ex = expression g fuel in
+  let ex0 = expression g fuel in
   (fun c lbegin lelse lend is_else ->
   let target = if is_else then lelse else lend in
   (match c with
    | CSingle e ->
-     bind (ex e) (fun r ->
+     bind (ex0 e) (fun r ->
        match r with
        | Some er -> emit (IIfCondExpr (er, lbegin, target))
        | None -> ret ())
@@ -2820,7 +2918,7 @@ let code_after_errors k fl =
     (string * string) option -> flags -> stmt -> flags m **)
 
 let nested_stmt g fuel rT =
-  let ex = expression g fuel in
+  let ex0 = expression g fuel in
   (fun iFC lOOP k lend lloop fl st ->
   match st with
   | SLet (x, m0, t, e) -> bind (let_binding g fuel x m0 t e) (fun _ -> ret fl)
@@ -2833,7 +2931,7 @@ let nested_stmt g fuel rT =
        | _ -> iFC i (Some lend) lloop) (fun _ -> ret fl)
   | SLoop body -> bind (lOOP body) (fun _ -> ret fl)
   | SRet e ->
-    bind (ex e) (fun r ->
+    bind (ex0 e) (fun r ->
       match r with
       | Some er ->
         bind (check_return_type rT er) (fun _ ->
@@ -3094,7 +3192,7 @@ let rec init_func_params = function
 (** val fn_stmt : globals -> nat -> sem_ty -> bool -> stmt -> bool m **)
 
 let fn_stmt g fuel rT =
-  let ex = expression g fuel in
+  let ex0 = expression g fuel in
   (fun returned st ->
   match st with
   | SLet (x, m0, t, e) ->
@@ -3106,7 +3204,7 @@ let fn_stmt g fuel rT =
   | SLoop body ->
     bind (loop_statement g fuel rT fuel body) (fun _ -> ret returned)
   | SRet e ->
-    bind (ex e) (fun r ->
+    bind (ex0 e) (fun r ->
       bind
         (when0 returned
           (add_error { e_kind = EReturnAlreadyCalled; e_val = None; e_loc =
@@ -3124,7 +3222,7 @@ let fn_stmt g fuel rT =
                   (fun _ -> ret true))))
         | None -> ret returned))
   | SExprStmt e ->
-    bind (ex e) (fun r ->
+    bind (ex0 e) (fun r ->
       bind
         (when0 returned
           (add_error { e_kind = EReturnAlreadyCalled; e_val = None; e_loc =
@@ -3364,6 +3462,29 @@ let defs c =
   flat_map (fun i -> match def_reg i with
                      | Some r -> r :: []
                      | None -> []) c
+
+(** val eres_reg : eres -> n list **)
+
+let eres_reg e =
+  match e.r_val with
+  | RReg n0 -> n0 :: []
+  | RPrim _ -> []
+
+(** val use_regs : instr -> n list **)
+
+let use_regs = function
+| IExprOp (_, l, r, _) -> app (eres_reg l) (eres_reg r)
+| ICall (_, args, _) -> flat_map eres_reg args
+| ILet (_, e) -> eres_reg e
+| IBind (_, e) -> eres_reg e
+| IFnRet e -> eres_reg e
+| IFnRetLabel e -> eres_reg e
+| IIfCondExpr (e, _, _) -> eres_reg e
+| ICondExpr (l, r, _, _) -> app (eres_reg l) (eres_reg r)
+| IJumpFnRet e -> eres_reg e
+| ILogic (_, l, r, _) -> l :: (r :: [])
+| IIfCondLogic (_, _, r) -> r :: []
+| _ -> []
 
 (** val set_label_of : instr -> string list **)
 
@@ -3763,8 +3884,8 @@ let flat_step code pc w =
 
 (** val prepend_trace : event list -> trace -> trace **)
 
-let prepend_trace ev t =
-  ((app ev (fst t)), (snd t))
+let prepend_trace ev0 t =
+  ((app ev0 (fst t)), (snd t))
 
 (** val flat_run : instr list -> nat -> nat -> bool list -> trace **)
 
@@ -3773,8 +3894,8 @@ let rec flat_run code fuel pc w =
   | O -> ([], OutOfFuel0)
   | S fuel' ->
     (match flat_step code pc w with
-     | Next (ev, pc', w') -> prepend_trace ev (flat_run code fuel' pc' w')
-     | Halt (ev, st) -> (ev, st))
+     | Next (ev0, pc', w') -> prepend_trace ev0 (flat_run code fuel' pc' w')
+     | Halt (ev0, st) -> (ev0, st))
 
 (** val flat_exec : instr list -> bool list -> nat -> trace **)
 
@@ -3835,16 +3956,16 @@ type sres = (event list * completion) * bool list
 
 (** val prepend : event list -> sres -> sres **)
 
-let prepend ev = function
-| (p, w) -> let (ev', c) = p in (((app ev ev'), c), w)
+let prepend ev0 = function
+| (p, w) -> let (ev', c) = p in (((app ev0 ev'), c), w)
 
 (** val seq0 : sres -> (bool list -> sres) -> sres **)
 
 let seq0 r k =
   let (p, w) = r in
-  let (ev, c) = p in (match c with
-                      | Normal -> prepend ev (k w)
-                      | _ -> r)
+  let (ev0, c) = p in (match c with
+                       | Normal -> prepend ev0 (k w)
+                       | _ -> r)
 
 (** val ifbody_stmts : ifbody -> stmt list **)
 
@@ -3856,8 +3977,8 @@ let ifbody_stmts = function
 
 let if_exit quirk in_if = function
 | (p, w) ->
-  let (ev, c) = p in
-  ((ev,
+  let (ev0, c) = p in
+  ((ev0,
   (match c with
    | Normal -> if (&&) quirk in_if then JumpOuterEnd else Normal
    | JumpOuterEnd -> if in_if then JumpOuterEnd else Normal
@@ -3867,11 +3988,11 @@ let if_exit quirk in_if = function
 
 let loop_exit r again =
   let (p, w) = r in
-  let (ev, c) = p in
+  let (ev0, c) = p in
   (match c with
-   | Normal -> prepend ev (again w)
-   | Brk -> ((ev, Normal), w)
-   | Cont -> prepend ev (again w)
+   | Normal -> prepend ev0 (again w)
+   | Brk -> ((ev0, Normal), w)
+   | Cont -> prepend ev0 (again w)
    | _ -> r)
 
 (** val out_of_fuel_res : bool list -> sres **)
@@ -3933,9 +4054,10 @@ let exec_stmts quirk =
 
 let finish = function
 | (p, _) ->
-  let (ev, c) = p in (match c with
-                      | Stop st -> (ev, st)
-                      | _ -> (ev, FellOff))
+  let (ev0, c) = p in
+  (match c with
+   | Stop st -> (ev0, st)
+   | _ -> (ev0, FellOff))
 
 (** val struct_exec : bool -> stmt list -> bool list -> nat -> trace **)
 
@@ -4153,17 +4275,17 @@ let funcs_of l =
 
 (** val pass1 : string list -> program -> outcome list **)
 
-let rec pass1 seen = function
+let rec pass1 seen0 = function
 | [] -> []
 | t :: p' ->
   (match t with
    | TStructDecl (n0, a) ->
-     if smem n0.iname seen
+     if smem n0.iname seen0
      then (Reports { e_kind = ETypeAlreadyExist; e_val = (Some n0.iname);
-            e_loc = (iloc n0) }) :: (pass1 seen p')
+            e_loc = (iloc n0) }) :: (pass1 seen0 p')
      else (Registers (GTypes
-            (struct_of_decl n0 a))) :: (pass1 (n0.iname :: seen) p')
-   | _ -> pass1 seen p')
+            (struct_of_decl n0 a))) :: (pass1 (n0.iname :: seen0) p')
+   | _ -> pass1 seen0 p')
 
 (** val spec_cval : cval -> cval_sem **)
 
@@ -4198,15 +4320,15 @@ let rec missing_const cs = function
 (** val bad_param :
     (sem_ty -> bool) -> (ident * ast_ty) list -> ident option **)
 
-let rec bad_param tok = function
+let rec bad_param tok0 = function
 | [] -> None
 | p :: ps' ->
-  let (x, t) = p in if tok (sem_of_ty t) then bad_param tok ps' else Some x
+  let (x, t) = p in if tok0 (sem_of_ty t) then bad_param tok0 ps' else Some x
 
 (** val const_outcome :
     (sem_ty -> bool) -> string list -> ident -> ast_ty -> cexpr -> outcome **)
 
-let const_outcome tok cs n0 ty v =
+let const_outcome tok0 cs n0 ty v =
   if smem n0.iname cs
   then Reports { e_kind = EConstantAlreadyExist; e_val = (Some n0.iname);
          e_loc = (iloc n0) }
@@ -4215,20 +4337,20 @@ let const_outcome tok cs n0 ty v =
           Reports { e_kind = EConstantNotFound; e_val = (Some c.iname);
             e_loc = (iloc c) }
         | None ->
-          if tok (sem_of_ty ty)
+          if tok0 (sem_of_ty ty)
           then Registers (GConst (spec_const n0 ty v))
           else Reports { e_kind = ETypeNotFound; e_val = (Some n0.iname);
                  e_loc = (iloc n0) })
 
 (** val fn_outcome : (sem_ty -> bool) -> string list -> fn_decl -> outcome **)
 
-let fn_outcome tok fs f =
+let fn_outcome tok0 fs f =
   let n0 = f.fn_name in
   if smem n0.iname fs
   then Reports { e_kind = EFunctionAlreadyExist; e_val = (Some n0.iname);
          e_loc = (iloc n0) }
-  else if tok (sem_of_ty f.fn_result)
-       then (match bad_param tok f.fn_params with
+  else if tok0 (sem_of_ty f.fn_result)
+       then (match bad_param tok0 f.fn_params with
              | Some x ->
                Reports { e_kind = ETypeNotFound; e_val = (Some x.iname);
                  e_loc = (iloc n0) }
@@ -4245,17 +4367,17 @@ let is_reg = function
 (** val pass2 :
     (sem_ty -> bool) -> string list -> string list -> program -> outcome list **)
 
-let rec pass2 tok cs fs = function
+let rec pass2 tok0 cs fs = function
 | [] -> []
 | t :: p' ->
   (match t with
    | TConst (n0, ty, v) ->
-     let o = const_outcome tok cs n0 ty v in
-     o :: (pass2 tok (if is_reg o then n0.iname :: cs else cs) fs p')
+     let o = const_outcome tok0 cs n0 ty v in
+     o :: (pass2 tok0 (if is_reg o then n0.iname :: cs else cs) fs p')
    | TFn f ->
-     let o = fn_outcome tok fs f in
-     o :: (pass2 tok cs (if is_reg o then f.fn_name.iname :: fs else fs) p')
-   | _ -> pass2 tok cs fs p')
+     let o = fn_outcome tok0 fs f in
+     o :: (pass2 tok0 cs (if is_reg o then f.fn_name.iname :: fs else fs) p')
+   | _ -> pass2 tok0 cs fs p')
 
 (** val spec_pass1 : program -> outcome list **)
 
@@ -4678,6 +4800,2416 @@ let chk_C18_shape p o =
 
 let chk_C18 p o =
   (&&) (chk_C18_sub o) (chk_C18_shape p o)
+
+(** val is_call_or_field : instr -> bool **)
+
+let is_call_or_field = function
+| IExprStruct (_, _, _) -> true
+| ICall (_, _, _) -> true
+| _ -> false
+
+type seen = (n * bool) list
+
+(** val written : n -> seen -> bool **)
+
+let rec written n0 = function
+| [] -> false
+| p :: s' -> let (m0, _) = p in (||) (N.eqb n0 m0) (written n0 s')
+
+(** val written_by_f7 : n -> seen -> bool **)
+
+let rec written_by_f7 n0 = function
+| [] -> false
+| p :: s' ->
+  let (m0, b) = p in (||) ((&&) (N.eqb n0 m0) b) (written_by_f7 n0 s')
+
+(** val reg_ok : bool -> seen -> n -> bool **)
+
+let reg_ok quirk s n0 =
+  (||) (written n0 s)
+    ((&&) ((&&) quirk (negb (N.eqb n0 N0)))
+      (written_by_f7 (N.sub n0 (Npos XH)) s))
+
+(** val scan : bool -> seen -> instr list -> bool **)
+
+let rec scan quirk s = function
+| [] -> true
+| i :: c' ->
+  (&&) (forallb (reg_ok quirk s) (use_regs i))
+    (scan quirk
+      (match def_reg i with
+       | Some r -> (r, (is_call_or_field i)) :: s
+       | None -> s) c')
+
+(** val chk_C08_root : bool -> block -> bool **)
+
+let chk_C08_root quirk b =
+  scan quirk [] b.b_ctx
+
+(** val chk_C08 : bool -> output -> bool **)
+
+let chk_C08 quirk o =
+  forallb (chk_C08_root quirk) o.o_fns
+
+(** val f7_reads : seen -> instr list -> nat **)
+
+let rec f7_reads s = function
+| [] -> O
+| i :: c' ->
+  add (length (filter (fun n0 -> negb (written n0 s)) (use_regs i)))
+    (f7_reads
+      (match def_reg i with
+       | Some r -> (r, (is_call_or_field i)) :: s
+       | None -> s) c')
+
+(** val f7_count : output -> nat **)
+
+let f7_count o =
+  fold_right (fun b n0 -> add (f7_reads [] b.b_ctx) n0) O o.o_fns
+
+type viol = { vi_kind : err_kind; vi_val : string option; vi_loc : loc }
+
+type 'a outcome0 =
+| Pass of 'a
+| Fail of viol
+| Stuck
+
+(** val andthen : 'a1 outcome0 -> ('a1 -> 'a2 outcome0) -> 'a2 outcome0 **)
+
+let andthen m0 k =
+  match m0 with
+  | Pass a -> k a
+  | Fail v -> Fail v
+  | Stuck -> Stuck
+
+(** val require :
+    bool -> err_kind -> string option -> loc -> unit outcome0 **)
+
+let require ok k v l =
+  if ok then Pass () else Fail { vi_kind = k; vi_val = v; vi_loc = l }
+
+(** val at_1_0 : loc **)
+
+let at_1_0 =
+  ((Npos XH), N0)
+
+(** val at_1_1 : loc **)
+
+let at_1_1 =
+  ((Npos XH), (Npos XH))
+
+type tables = { tb_types : (string * sem_ty) list;
+                tb_consts : (string * sem_ty) list;
+                tb_funcs : (string * (sem_ty list * sem_ty)) list }
+
+type scope = (string * (sem_ty * bool)) list
+
+type scopes = scope list
+
+(** val lookup_scopes : string -> scopes -> (sem_ty * bool) option **)
+
+let rec lookup_scopes x = function
+| [] -> None
+| s :: g' ->
+  (match alookup x s with
+   | Some b -> Some b
+   | None -> lookup_scopes x g')
+
+(** val declare : string -> sem_ty -> bool -> scopes -> scopes **)
+
+let declare x t mut = function
+| [] -> []
+| s :: g' -> (ainsert x (t, mut) s) :: g'
+
+(** val type_known : tables -> sem_ty -> bool **)
+
+let type_known t t0 =
+  (||) (is_prim t0) (amem (type_name t0) t.tb_types)
+
+(** val is_some0 : 'a1 option -> bool **)
+
+let is_some0 = function
+| Some _ -> true
+| None -> false
+
+(** val check_args :
+    bool -> (expr -> sem_ty outcome0) -> ident -> sem_ty list -> expr list ->
+    unit outcome0 **)
+
+let rec check_args enforced e callee params = function
+| [] ->
+  (match params with
+   | [] -> Pass ()
+   | _ :: _ ->
+     if enforced
+     then Pass ()
+     else Fail { vi_kind = EFunctionParameterTypeWrong; vi_val = None;
+            vi_loc = (iloc callee) })
+| a :: args' ->
+  (match params with
+   | [] ->
+     andthen (e a) (fun t -> Fail { vi_kind = EFunctionParameterTypeWrong;
+       vi_val = (Some (type_name t)); vi_loc = (iloc callee) })
+   | pt :: params' ->
+     andthen (e a) (fun t ->
+       andthen
+         (require (sem_ty_eqb pt t) EFunctionParameterTypeWrong (Some
+           (type_name t)) (iloc callee)) (fun _ ->
+         check_args enforced e callee params' args')))
+
+(** val check_call :
+    bool -> tables -> (expr -> sem_ty outcome0) -> ident -> expr list ->
+    sem_ty outcome0 **)
+
+let check_call enforced t e f args =
+  match alookup f.iname t.tb_funcs with
+  | Some p ->
+    let (params, result) = p in
+    andthen (check_args enforced e f params args) (fun _ -> Pass result)
+  | None ->
+    Fail { vi_kind = EFunctionNotFound; vi_val = (Some f.iname); vi_loc =
+      (iloc f) }
+
+(** val check_name : tables -> scopes -> ident -> sem_ty outcome0 **)
+
+let check_name t g x =
+  match lookup_scopes x.iname g with
+  | Some p -> let (t0, _) = p in Pass t0
+  | None ->
+    (match alookup x.iname t.tb_consts with
+     | Some t0 -> Pass t0
+     | None ->
+       Fail { vi_kind = EValueNotFound; vi_val = (Some x.iname); vi_loc =
+         (iloc x) })
+
+(** val check_field :
+    tables -> scopes -> ident -> ident -> sem_ty outcome0 **)
+
+let check_field t g x a =
+  let bad = fun k -> Fail { vi_kind = k; vi_val = (Some x.iname); vi_loc =
+    (iloc x) }
+  in
+  (match lookup_scopes x.iname g with
+   | Some p ->
+     let (t0, _) = p in
+     (match t0 with
+      | SStruct (_, attrs) ->
+        (match alookup (type_name t0) t.tb_types with
+         | Some declared0 ->
+           if negb (sem_ty_eqb t0 declared0)
+           then bad EWrongExpressionType
+           else (match attr_lookup a.iname attrs with
+                 | Some p0 -> let (_, ta) = p0 in Pass ta
+                 | None -> bad EValueNotStructField)
+         | None -> bad ETypeNotFound)
+      | _ -> bad EValueNotStruct)
+   | None -> bad EValueNotFound)
+
+(** val check_operand :
+    bool -> tables -> scopes -> (expr -> sem_ty outcome0) -> expr_val ->
+    sem_ty outcome0 **)
+
+let check_operand enforced t g e = function
+| EVName x -> check_name t g x
+| EVPrim p -> Pass (SPrim p.pv_ty)
+| EVCall (f, args) -> check_call enforced t e f args
+| EVField (x, a) -> check_field t g x a
+| EVSub e0 -> e e0
+| EVExt (t0, _) -> Pass (sem_of_ty t0)
+
+(** val check_links :
+    bool -> tables -> scopes -> (expr -> sem_ty outcome0) -> sem_ty ->
+    (binop * expr_val) list -> sem_ty outcome0 **)
+
+let rec check_links enforced t g e left = function
+| [] -> Pass left
+| p :: rest' ->
+  let (_, v) = p in
+  andthen (check_operand enforced t g e v) (fun t0 ->
+    andthen
+      (require (sem_ty_eqb left t0) EWrongExpressionType (Some
+        (type_name left)) at_1_0) (fun _ ->
+      check_links enforced t g e t0 rest'))
+
+(** val check_expr_step :
+    bool -> tables -> scopes -> (expr -> sem_ty outcome0) -> expr -> sem_ty
+    outcome0 **)
+
+let check_expr_step enforced t g e e0 =
+  let Expr (v, rest) = fold_priority e0 in
+  andthen (check_operand enforced t g e v) (fun t0 ->
+    check_links enforced t g e t0 rest)
+
+(** val check_expr :
+    bool -> tables -> scopes -> nat -> expr -> sem_ty outcome0 **)
+
+let rec check_expr enforced t g fuel e =
+  match fuel with
+  | O -> Stuck
+  | S f -> check_expr_step enforced t g (check_expr enforced t g f) e
+
+(** val ex : bool -> tables -> nat -> scopes -> expr -> sem_ty outcome0 **)
+
+let ex enforced t fuel g e =
+  check_expr enforced t g fuel e
+
+(** val check_lcond :
+    bool -> tables -> nat -> scopes -> lcond -> unit outcome0 **)
+
+let rec check_lcond enforced t fuel g = function
+| LC (l, _, r, next) ->
+  andthen (ex enforced t fuel g l) (fun tl ->
+    andthen (ex enforced t fuel g r) (fun tr ->
+      andthen
+        (require (sem_ty_eqb tl tr) EConditionExpressionWrongType (Some
+          (type_name tl)) at_1_0) (fun _ ->
+        andthen
+          (require (is_prim tl) EConditionExpressionNotSupported (Some
+            (type_name tl)) at_1_0) (fun _ ->
+          match next with
+          | Some p -> let (_, c') = p in check_lcond enforced t fuel g c'
+          | None -> Pass ()))))
+
+(** val check_cond :
+    bool -> tables -> nat -> scopes -> cond -> unit outcome0 **)
+
+let check_cond enforced t fuel g = function
+| CSingle e -> andthen (ex enforced t fuel g e) (fun _ -> Pass ())
+| CLogic l -> check_lcond enforced t fuel g l
+
+(** val check_let :
+    bool -> tables -> nat -> scopes -> ident -> bool -> ast_ty option -> expr
+    -> scopes outcome0 **)
+
+let check_let enforced t fuel g x mut ty e =
+  andthen (ex enforced t fuel g e) (fun t0 ->
+    andthen
+      (require
+        (match ty with
+         | Some a -> sem_ty_eqb t0 (sem_of_ty a)
+         | None -> true) EWrongLetType (Some x.iname) (iloc x)) (fun _ ->
+      Pass (declare x.iname t0 mut g)))
+
+(** val check_assign :
+    bool -> tables -> nat -> scopes -> ident -> expr -> unit outcome0 **)
+
+let check_assign enforced t fuel g x e =
+  andthen (ex enforced t fuel g e) (fun t0 ->
+    match lookup_scopes x.iname g with
+    | Some p ->
+      let (tx, mut) = p in
+      andthen (require mut EValueIsNotMutable (Some x.iname) (iloc x))
+        (fun _ ->
+        require (sem_ty_eqb tx t0) EWrongExpressionType (Some x.iname)
+          (iloc x))
+    | None ->
+      Fail { vi_kind = EValueNotFound; vi_val = (Some x.iname); vi_loc =
+        (iloc x) })
+
+(** val check_call_stmt :
+    bool -> tables -> nat -> scopes -> ident -> expr list -> unit outcome0 **)
+
+let check_call_stmt enforced t fuel g f args =
+  andthen (check_call enforced t (ex enforced t fuel g) f args) (fun _ ->
+    Pass ())
+
+(** val no_code_after : err_kind option -> unit outcome0 **)
+
+let no_code_after = function
+| Some k -> Fail { vi_kind = k; vi_val = None; vi_loc = at_1_1 }
+| None -> Pass ()
+
+(** val check_nested_stmt :
+    bool -> tables -> nat -> sem_ty -> (scopes -> bool -> ifstmt -> unit
+    outcome0) -> (scopes -> stmt list -> unit outcome0) -> bool -> bool ->
+    scopes -> stmt -> (scopes * err_kind option) outcome0 **)
+
+let check_nested_stmt enforced t fuel rT iFC lOOP loopy in_loop g = function
+| SLet (x, m0, t0, e) ->
+  andthen (check_let enforced t fuel g x m0 t0 e) (fun g' -> Pass (g', None))
+| SBind (x, e) ->
+  andthen (check_assign enforced t fuel g x e) (fun _ -> Pass (g, None))
+| SCall (f, args) ->
+  andthen (check_call_stmt enforced t fuel g f args) (fun _ -> Pass (g, None))
+| SIf i -> andthen (iFC g in_loop i) (fun _ -> Pass (g, None))
+| SLoop body -> andthen (lOOP g body) (fun _ -> Pass (g, None))
+| SRet e ->
+  andthen (ex enforced t fuel g e) (fun t0 ->
+    andthen (require (sem_ty_eqb rT t0) EWrongReturnType None at_1_0)
+      (fun _ -> Pass (g, (Some EForbiddenCodeAfterReturnDeprecated))))
+| SExprStmt _ -> Stuck
+| SBreak ->
+  if (&&) loopy in_loop
+  then Pass (g, (Some EForbiddenCodeAfterBreakDeprecated))
+  else Stuck
+| SContinue ->
+  if (&&) loopy in_loop
+  then Pass (g, (Some EForbiddenCodeAfterContinueDeprecated))
+  else Stuck
+
+(** val check_block :
+    bool -> tables -> nat -> sem_ty -> (scopes -> bool -> ifstmt -> unit
+    outcome0) -> (scopes -> stmt list -> unit outcome0) -> bool -> bool ->
+    scopes -> err_kind option -> stmt list -> unit outcome0 **)
+
+let rec check_block enforced t fuel rT iFC lOOP loopy in_loop g ended = function
+| [] -> Pass ()
+| st :: ss' ->
+  andthen (no_code_after ended) (fun _ ->
+    andthen
+      (check_nested_stmt enforced t fuel rT iFC lOOP loopy in_loop g st)
+      (fun r ->
+      check_block enforced t fuel rT iFC lOOP loopy in_loop (fst r) (snd r)
+        ss'))
+
+(** val check_ifbody :
+    bool -> tables -> nat -> sem_ty -> (scopes -> bool -> ifstmt -> unit
+    outcome0) -> (scopes -> stmt list -> unit outcome0) -> scopes -> bool ->
+    ifbody -> unit outcome0 **)
+
+let check_ifbody enforced t fuel rT iFC lOOP g in_loop = function
+| IBIf ss -> check_block enforced t fuel rT iFC lOOP false in_loop g None ss
+| IBLoop ss ->
+  if in_loop
+  then check_block enforced t fuel rT iFC lOOP true in_loop g None ss
+  else Stuck
+
+(** val check_if_step :
+    bool -> tables -> nat -> sem_ty -> (scopes -> bool -> ifstmt -> unit
+    outcome0) -> (scopes -> stmt list -> unit outcome0) -> scopes -> bool ->
+    ifstmt -> unit outcome0 **)
+
+let check_if_step enforced t fuel rT iFC lOOP g in_loop = function
+| IfS (c, body, els, elif) ->
+  andthen
+    (require (negb ((&&) (is_some0 els) (is_some0 elif))) EIfElseDuplicated
+      (Some (String ((Ascii (true, false, false, true, false, true, true,
+      false)), (String ((Ascii (false, true, true, false, false, true, true,
+      false)), (String ((Ascii (true, false, true, true, false, true, false,
+      false)), (String ((Ascii (true, true, false, false, false, true, true,
+      false)), (String ((Ascii (true, true, true, true, false, true, true,
+      false)), (String ((Ascii (false, true, true, true, false, true, true,
+      false)), (String ((Ascii (false, false, true, false, false, true, true,
+      false)), (String ((Ascii (true, false, false, true, false, true, true,
+      false)), (String ((Ascii (false, false, true, false, true, true, true,
+      false)), (String ((Ascii (true, false, false, true, false, true, true,
+      false)), (String ((Ascii (true, true, true, true, false, true, true,
+      false)), (String ((Ascii (false, true, true, true, false, true, true,
+      false)), EmptyString))))))))))))))))))))))))) at_1_0) (fun _ ->
+    andthen (check_cond enforced t fuel ([] :: g) c) (fun _ ->
+      andthen
+        (check_ifbody enforced t fuel rT iFC lOOP ([] :: g) in_loop body)
+        (fun _ ->
+        match els with
+        | Some eb ->
+          check_ifbody enforced t fuel rT iFC lOOP ([] :: g) in_loop eb
+        | None ->
+          (match elif with
+           | Some ei -> iFC g in_loop ei
+           | None -> Pass ()))))
+
+(** val check_loop_step :
+    bool -> tables -> nat -> sem_ty -> (scopes -> bool -> ifstmt -> unit
+    outcome0) -> (scopes -> stmt list -> unit outcome0) -> scopes -> stmt
+    list -> unit outcome0 **)
+
+let check_loop_step enforced t fuel rT iFC lOOP g body =
+  check_block enforced t fuel rT iFC lOOP true true ([] :: g) None body
+
+(** val check_if :
+    bool -> tables -> nat -> sem_ty -> nat -> scopes -> bool -> ifstmt ->
+    unit outcome0 **)
+
+let check_if enforced t fuel rT =
+  let rec check_if0 n0 g in_loop i =
+    match n0 with
+    | O -> Stuck
+    | S n' ->
+      check_if_step enforced t fuel rT (check_if0 n') (check_loop0 n') g
+        in_loop i
+  and check_loop0 n0 g body =
+    match n0 with
+    | O -> Stuck
+    | S n' ->
+      check_loop_step enforced t fuel rT (check_if0 n') (check_loop0 n') g
+        body
+  in check_if0
+
+(** val check_loop :
+    bool -> tables -> nat -> sem_ty -> nat -> scopes -> stmt list -> unit
+    outcome0 **)
+
+let check_loop enforced t fuel rT =
+  let rec check_if0 n0 g in_loop i =
+    match n0 with
+    | O -> Stuck
+    | S n' ->
+      check_if_step enforced t fuel rT (check_if0 n') (check_loop0 n') g
+        in_loop i
+  and check_loop0 n0 g body =
+    match n0 with
+    | O -> Stuck
+    | S n' ->
+      check_loop_step enforced t fuel rT (check_if0 n') (check_loop0 n') g
+        body
+  in check_loop0
+
+(** val check_fn_stmt :
+    bool -> tables -> nat -> sem_ty -> scopes -> bool -> stmt ->
+    (scopes * bool) outcome0 **)
+
+let check_fn_stmt enforced t fuel rT g returned = function
+| SLet (x, m0, t0, e) ->
+  andthen (check_let enforced t fuel g x m0 t0 e) (fun g' -> Pass (g',
+    returned))
+| SBind (x, e) ->
+  andthen (check_assign enforced t fuel g x e) (fun _ -> Pass (g, returned))
+| SCall (f, args) ->
+  andthen (check_call_stmt enforced t fuel g f args) (fun _ -> Pass (g,
+    returned))
+| SIf i ->
+  andthen (check_if enforced t fuel rT fuel g false i) (fun _ -> Pass (g,
+    returned))
+| SLoop body ->
+  andthen (check_loop enforced t fuel rT fuel g body) (fun _ -> Pass (g,
+    returned))
+| SRet e ->
+  andthen (ex enforced t fuel g e) (fun t0 ->
+    andthen (require (negb returned) EReturnAlreadyCalled None at_1_0)
+      (fun _ ->
+      andthen (require (type_known t t0) ETypeNotFound None at_1_0) (fun _ ->
+        andthen (require (sem_ty_eqb rT t0) EWrongReturnType None at_1_0)
+          (fun _ -> Pass (g, true)))))
+| SExprStmt e ->
+  andthen (ex enforced t fuel g e) (fun t0 ->
+    andthen (require (negb returned) EReturnAlreadyCalled None at_1_0)
+      (fun _ ->
+      andthen (require (type_known t t0) ETypeNotFound None at_1_0) (fun _ ->
+        andthen (require (sem_ty_eqb rT t0) EWrongReturnType None at_1_0)
+          (fun _ -> Pass (g, true)))))
+| _ -> Stuck
+
+(** val check_fn_stmts :
+    bool -> tables -> nat -> sem_ty -> scopes -> bool -> stmt list -> bool
+    outcome0 **)
+
+let rec check_fn_stmts enforced t fuel rT g returned = function
+| [] -> Pass returned
+| st :: ss' ->
+  andthen
+    (require (negb returned) EForbiddenCodeAfterReturnDeprecated None at_1_1)
+    (fun _ ->
+    andthen (check_fn_stmt enforced t fuel rT g returned st) (fun r ->
+      check_fn_stmts enforced t fuel rT (fst r) (snd r) ss'))
+
+(** val declare_params : scope -> (ident * ast_ty) list -> scope outcome0 **)
+
+let rec declare_params s = function
+| [] -> Pass s
+| p :: ps' ->
+  let (x, t) = p in
+  andthen
+    (require (negb (amem x.iname s)) EFunctionArgumentNameDuplicated (Some
+      x.iname) at_1_1) (fun _ ->
+    declare_params (ainsert x.iname ((sem_of_ty t), false) s) ps')
+
+(** val fuel_of_fn : fn_decl -> nat **)
+
+let fuel_of_fn f =
+  S (S (size_fn f))
+
+(** val check_fn_body : bool -> tables -> fn_decl -> unit outcome0 **)
+
+let check_fn_body enforced t f =
+  andthen (declare_params [] f.fn_params) (fun params ->
+    andthen
+      (check_fn_stmts enforced t (fuel_of_fn f) (sem_of_ty f.fn_result)
+        (params :: []) false f.fn_body) (fun returned ->
+      require returned EReturnNotFound (Some EmptyString) (iloc f.fn_name)))
+
+(** val check_bodies : bool -> tables -> fn_decl list -> unit outcome0 **)
+
+let rec check_bodies enforced t = function
+| [] -> Pass ()
+| f :: fs' ->
+  andthen (check_fn_body enforced t f) (fun _ -> check_bodies enforced t fs')
+
+(** val check_structs :
+    (string * sem_ty) list -> program -> (string * sem_ty) list outcome0 **)
+
+let rec check_structs types = function
+| [] -> Pass types
+| t :: p' ->
+  (match t with
+   | TStructDecl (name, attrs) ->
+     andthen
+       (require (negb (amem name.iname types)) ETypeAlreadyExist (Some
+         name.iname) (iloc name)) (fun _ ->
+       check_structs
+         (app types ((name.iname, (struct_of_decl name attrs)) :: [])) p')
+   | _ -> check_structs types p')
+
+(** val consts_mentioned : cval list -> ident list **)
+
+let rec consts_mentioned = function
+| [] -> []
+| c0 :: l' ->
+  (match c0 with
+   | CConst c -> c :: (consts_mentioned l')
+   | CVal _ -> consts_mentioned l')
+
+(** val consts_before_literal : cval list -> ident list **)
+
+let rec consts_before_literal = function
+| [] -> []
+| c0 :: l' ->
+  (match c0 with
+   | CConst c -> c :: (consts_before_literal l')
+   | CVal _ -> [])
+
+(** val r5_checked : bool -> cexpr -> ident list **)
+
+let r5_checked enforced v =
+  if enforced
+  then consts_before_literal (map snd v.ce_rest)
+  else consts_mentioned (v.ce_head :: (map snd v.ce_rest))
+
+(** val all_declared :
+    (string * sem_ty) list -> ident list -> unit outcome0 **)
+
+let rec all_declared consts = function
+| [] -> Pass ()
+| c :: l' ->
+  andthen
+    (require (amem c.iname consts) EConstantNotFound (Some c.iname) (iloc c))
+    (fun _ -> all_declared consts l')
+
+(** val check_const_decl :
+    bool -> tables -> ident -> ast_ty -> cexpr -> tables outcome0 **)
+
+let check_const_decl enforced t name ty v =
+  andthen
+    (require (negb (amem name.iname t.tb_consts)) EConstantAlreadyExist (Some
+      name.iname) (iloc name)) (fun _ ->
+    andthen (all_declared t.tb_consts (r5_checked enforced v)) (fun _ ->
+      andthen
+        (require (type_known t (sem_of_ty ty)) ETypeNotFound (Some
+          name.iname) (iloc name)) (fun _ -> Pass { tb_types = t.tb_types;
+        tb_consts = (app t.tb_consts ((name.iname, (sem_of_ty ty)) :: []));
+        tb_funcs = t.tb_funcs })))
+
+(** val check_param_types :
+    tables -> loc -> (ident * ast_ty) list -> unit outcome0 **)
+
+let rec check_param_types t floc = function
+| [] -> Pass ()
+| p :: ps' ->
+  let (x, t0) = p in
+  andthen
+    (require (type_known t (sem_of_ty t0)) ETypeNotFound (Some x.iname) floc)
+    (fun _ -> check_param_types t floc ps')
+
+(** val check_fn_decl : tables -> fn_decl -> tables outcome0 **)
+
+let check_fn_decl t f =
+  let name = f.fn_name in
+  andthen
+    (require (negb (amem name.iname t.tb_funcs)) EFunctionAlreadyExist (Some
+      name.iname) (iloc name)) (fun _ ->
+    andthen
+      (require (type_known t (sem_of_ty f.fn_result)) ETypeNotFound (Some
+        name.iname) (iloc name)) (fun _ ->
+      andthen (check_param_types t (iloc name) f.fn_params) (fun _ -> Pass
+        { tb_types = t.tb_types; tb_consts = t.tb_consts; tb_funcs =
+        (app t.tb_funcs ((name.iname,
+          ((map (fun p -> sem_of_ty (snd p)) f.fn_params),
+          (sem_of_ty f.fn_result))) :: [])) })))
+
+(** val check_decls : bool -> tables -> program -> tables outcome0 **)
+
+let rec check_decls enforced t = function
+| [] -> Pass t
+| t0 :: p' ->
+  (match t0 with
+   | TConst (name, ty, v) ->
+     andthen (check_const_decl enforced t name ty v) (fun t' ->
+       check_decls enforced t' p')
+   | TFn f ->
+     andthen (check_fn_decl t f) (fun t' -> check_decls enforced t' p')
+   | _ -> check_decls enforced t p')
+
+(** val fn_decls : program -> fn_decl list **)
+
+let rec fn_decls = function
+| [] -> []
+| t :: p' -> (match t with
+              | TFn f -> f :: (fn_decls p')
+              | _ -> fn_decls p')
+
+(** val check_program : bool -> program -> unit outcome0 **)
+
+let check_program enforced p =
+  andthen (check_structs [] p) (fun types ->
+    andthen
+      (check_decls enforced { tb_types = types; tb_consts = []; tb_funcs =
+        [] } p) (fun t -> check_bodies enforced t (fn_decls p)))
+
+(** val stuck_viol : viol **)
+
+let stuck_viol =
+  { vi_kind = ECommon; vi_val = None; vi_loc = (N0, N0) }
+
+(** val first_violation : bool -> program -> viol option **)
+
+let first_violation enforced p =
+  match check_program enforced p with
+  | Pass _ -> None
+  | Fail v -> Some v
+  | Stuck -> Some stuck_viol
+
+(** val wf_b : program -> bool **)
+
+let wf_b p =
+  match first_violation false p with
+  | Some _ -> false
+  | None -> true
+
+(** val accepted_spec_b : program -> bool **)
+
+let accepted_spec_b p =
+  match first_violation true p with
+  | Some _ -> false
+  | None -> true
+
+(** val err_kind_eqb : err_kind -> err_kind -> bool **)
+
+let err_kind_eqb a b =
+  eqb1 (err_kind_name a) (err_kind_name b)
+
+(** val loc_eqb : loc -> loc -> bool **)
+
+let loc_eqb a b =
+  (&&) (N.eqb (fst a) (fst b)) (N.eqb (snd a) (snd b))
+
+(** val val_agrees : string option -> string option -> bool **)
+
+let val_agrees spec reported =
+  match spec with
+  | Some s -> (match reported with
+               | Some s' -> eqb1 s s'
+               | None -> false)
+  | None -> true
+
+(** val viol_agrees : viol -> err -> bool **)
+
+let viol_agrees v e =
+  (&&) ((&&) (err_kind_eqb v.vi_kind e.e_kind) (loc_eqb v.vi_loc e.e_loc))
+    (val_agrees v.vi_val e.e_val)
+
+(** val no_errors : output -> bool **)
+
+let no_errors o =
+  match o.o_errors with
+  | [] -> true
+  | _ :: _ -> false
+
+(** val chk_C14 : program -> output -> bool **)
+
+let chk_C14 p o =
+  match first_violation true p with
+  | Some v ->
+    (match hd_error o.o_errors with
+     | Some e -> viol_agrees v e
+     | None -> false)
+  | None -> (match hd_error o.o_errors with
+             | Some _ -> false
+             | None -> true)
+
+(** val chk_C02 : program -> output -> bool **)
+
+let chk_C02 p o =
+  implb (wf_b p) (no_errors o)
+
+(** val chk_C01 : program -> output -> bool **)
+
+let chk_C01 p o =
+  implb (no_errors o) (wf_b p)
+
+(** val chk_C01_quirk : program -> output -> bool **)
+
+let chk_C01_quirk p o =
+  implb (no_errors o) (accepted_spec_b p)
+
+type ev =
+| EDecl of nat
+| EUse of nat
+| EUseField of nat * string
+| EUseConst of string
+| EAssign of nat
+| ECall of string
+| EExt of n
+| ERet
+
+(** val ev_eqb : ev -> ev -> bool **)
+
+let ev_eqb a b =
+  match a with
+  | EDecl x -> (match b with
+                | EDecl y -> Nat.eqb x y
+                | _ -> false)
+  | EUse x -> (match b with
+               | EUse y -> Nat.eqb x y
+               | _ -> false)
+  | EUseField (x, s) ->
+    (match b with
+     | EUseField (y, t) -> (&&) (Nat.eqb x y) (eqb1 s t)
+     | _ -> false)
+  | EUseConst s -> (match b with
+                    | EUseConst t -> eqb1 s t
+                    | _ -> false)
+  | EAssign x -> (match b with
+                  | EAssign y -> Nat.eqb x y
+                  | _ -> false)
+  | ECall s -> (match b with
+                | ECall t -> eqb1 s t
+                | _ -> false)
+  | EExt x -> (match b with
+               | EExt y -> N.eqb x y
+               | _ -> false)
+  | ERet -> (match b with
+             | ERet -> true
+             | _ -> false)
+
+(** val evs_eqb : ev list -> ev list -> bool **)
+
+let rec evs_eqb l l' =
+  match l with
+  | [] -> (match l' with
+           | [] -> true
+           | _ :: _ -> false)
+  | a :: r ->
+    (match l' with
+     | [] -> false
+     | b :: r' -> (&&) (ev_eqb a b) (evs_eqb r r'))
+
+type rscope = (string * nat) list
+
+type rscopes = rscope list
+
+(** val scope_find : string -> rscope -> nat option **)
+
+let rec scope_find x = function
+| [] -> None
+| p :: s' -> let (y, d) = p in if eqb1 x y then Some d else scope_find x s'
+
+(** val resolve : string -> rscopes -> nat option **)
+
+let rec resolve x = function
+| [] -> None
+| s :: g' ->
+  (match scope_find x s with
+   | Some d -> Some d
+   | None -> resolve x g')
+
+(** val declare_in : string -> nat -> rscopes -> rscopes **)
+
+let declare_in x d = function
+| [] -> ((x, d) :: []) :: []
+| s :: g' -> ((x, d) :: s) :: g'
+
+(** val oapp : ev list option -> ev list option -> ev list option **)
+
+let oapp a b =
+  match a with
+  | Some x -> (match b with
+               | Some y -> Some (app x y)
+               | None -> None)
+  | None -> None
+
+(** val ev_expr : rscopes -> expr -> ev list option **)
+
+let rec ev_expr g = function
+| Expr (v, rest) ->
+  oapp (ev_val g v)
+    (let rec go = function
+     | [] -> Some []
+     | p :: l' -> let (_, v') = p in oapp (ev_val g v') (go l')
+     in go rest)
+
+(** val ev_val : rscopes -> expr_val -> ev list option **)
+
+and ev_val g = function
+| EVName x ->
+  (match resolve x.iname g with
+   | Some d -> Some ((EUse d) :: [])
+   | None -> Some ((EUseConst x.iname) :: []))
+| EVPrim _ -> Some []
+| EVCall (f, args) ->
+  oapp
+    (let rec go = function
+     | [] -> Some []
+     | a :: l' -> oapp (ev_expr g a) (go l')
+     in go args) (Some ((ECall f.iname) :: []))
+| EVField (x, a) ->
+  (match resolve x.iname g with
+   | Some d -> Some ((EUseField (d, a.iname)) :: [])
+   | None -> None)
+| EVSub e -> ev_expr g e
+| EVExt (_, tag) -> Some ((EExt tag) :: [])
+
+(** val ev_exprs : rscopes -> expr list -> ev list option **)
+
+let rec ev_exprs g = function
+| [] -> Some []
+| a :: l' -> oapp (ev_expr g a) (ev_exprs g l')
+
+(** val ev_lcond : rscopes -> lcond -> ev list option **)
+
+let rec ev_lcond g = function
+| LC (l, _, r, next) ->
+  oapp (ev_expr g l)
+    (oapp (ev_expr g r)
+      (match next with
+       | Some p -> let (_, c') = p in ev_lcond g c'
+       | None -> Some []))
+
+(** val ev_cond : rscopes -> cond -> ev list option **)
+
+let ev_cond g = function
+| CSingle e -> ev_expr g e
+| CLogic l -> ev_lcond g l
+
+(** val ev_stmt :
+    rscopes -> nat -> stmt -> ((rscopes * nat) * ev list) option **)
+
+let rec ev_stmt g n0 = function
+| SLet (x, _, _, e) ->
+  (match ev_expr g e with
+   | Some es ->
+     Some (((declare_in x.iname n0 g), (S n0)), (app es ((EDecl n0) :: [])))
+   | None -> None)
+| SBind (x, e) ->
+  (match ev_expr g e with
+   | Some es ->
+     (match resolve x.iname g with
+      | Some d -> Some ((g, n0), (app es ((EAssign d) :: [])))
+      | None -> None)
+   | None -> None)
+| SCall (f, args) ->
+  (match ev_exprs g args with
+   | Some es -> Some ((g, n0), (app es ((ECall f.iname) :: [])))
+   | None -> None)
+| SIf i ->
+  (match ev_if g n0 i with
+   | Some p -> let (n', es) = p in Some ((g, n'), es)
+   | None -> None)
+| SLoop body ->
+  (match let rec go g0 n1 = function
+         | [] -> Some (n1, [])
+         | s' :: l' ->
+           (match ev_stmt g0 n1 s' with
+            | Some p ->
+              let (p0, es) = p in
+              let (g', n') = p0 in
+              (match go g' n' l' with
+               | Some p1 -> let (n'', es') = p1 in Some (n'', (app es es'))
+               | None -> None)
+            | None -> None)
+         in go ([] :: g) n0 body with
+   | Some p -> let (n', es) = p in Some ((g, n'), es)
+   | None -> None)
+| SRet e ->
+  (match ev_expr g e with
+   | Some es -> Some ((g, n0), (app es (ERet :: [])))
+   | None -> None)
+| SExprStmt e ->
+  (match ev_expr g e with
+   | Some es -> Some ((g, n0), (app es (ERet :: [])))
+   | None -> None)
+| _ -> Some ((g, n0), [])
+
+(** val ev_if : rscopes -> nat -> ifstmt -> (nat * ev list) option **)
+
+and ev_if g n0 = function
+| IfS (c, body, els, elif) ->
+  (match ev_cond ([] :: g) c with
+   | Some ec ->
+     (match ev_ifbody ([] :: g) n0 body with
+      | Some p ->
+        let (n1, eb) = p in
+        (match els with
+         | Some b ->
+           (match ev_ifbody ([] :: g) n1 b with
+            | Some p0 -> let (n2, ee) = p0 in Some (n2, (app ec (app eb ee)))
+            | None -> None)
+         | None ->
+           (match elif with
+            | Some i' ->
+              (match ev_if g n1 i' with
+               | Some p0 ->
+                 let (n2, ee) = p0 in Some (n2, (app ec (app eb ee)))
+               | None -> None)
+            | None -> Some (n1, (app ec eb))))
+      | None -> None)
+   | None -> None)
+
+(** val ev_ifbody : rscopes -> nat -> ifbody -> (nat * ev list) option **)
+
+and ev_ifbody g n0 = function
+| IBIf ss ->
+  let rec go g0 n1 = function
+  | [] -> Some (n1, [])
+  | s' :: l' ->
+    (match ev_stmt g0 n1 s' with
+     | Some p ->
+       let (p0, es) = p in
+       let (g', n') = p0 in
+       (match go g' n' l' with
+        | Some p1 -> let (n'', es') = p1 in Some (n'', (app es es'))
+        | None -> None)
+     | None -> None)
+  in go g n0 ss
+| IBLoop ss ->
+  let rec go g0 n1 = function
+  | [] -> Some (n1, [])
+  | s' :: l' ->
+    (match ev_stmt g0 n1 s' with
+     | Some p ->
+       let (p0, es) = p in
+       let (g', n') = p0 in
+       (match go g' n' l' with
+        | Some p1 -> let (n'', es') = p1 in Some (n'', (app es es'))
+        | None -> None)
+     | None -> None)
+  in go g n0 ss
+
+(** val ev_stmts : rscopes -> nat -> stmt list -> (nat * ev list) option **)
+
+let rec ev_stmts g n0 = function
+| [] -> Some (n0, [])
+| s :: l' ->
+  (match ev_stmt g n0 s with
+   | Some p ->
+     let (p0, es) = p in
+     let (g', n') = p0 in
+     (match ev_stmts g' n' l' with
+      | Some p1 -> let (n'', es') = p1 in Some (n'', (app es es'))
+      | None -> None)
+   | None -> None)
+
+(** val param_scope : nat -> (ident * ast_ty) list -> rscope -> rscope **)
+
+let rec param_scope k ps s =
+  match ps with
+  | [] -> s
+  | p :: ps' -> let (x, _) = p in param_scope (S k) ps' ((x.iname, k) :: s)
+
+(** val src_events : fn_decl -> ev list option **)
+
+let src_events f =
+  match ev_stmts ((param_scope O f.fn_params []) :: []) (length f.fn_params)
+          f.fn_body with
+  | Some p -> let (_, es) = p in Some es
+  | None -> None
+
+type nmap = (string * nat) list
+
+(** val nmap_find : string -> nmap -> nat option **)
+
+let rec nmap_find x = function
+| [] -> None
+| p :: m' -> let (y, d) = p in if eqb1 x y then Some d else nmap_find x m'
+
+(** val attr_name_at : n -> ((string * n) * sem_ty) list -> string option **)
+
+let rec attr_name_at idx = function
+| [] -> None
+| p :: l' ->
+  let (p0, _) = p in
+  let (x, i) = p0 in if N.eqb idx i then Some x else attr_name_at idx l'
+
+(** val field_name : sem_ty -> n -> string option **)
+
+let field_name t idx =
+  match t with
+  | SStruct (_, attrs) -> attr_name_at idx attrs
+  | _ -> None
+
+(** val stack_scan :
+    instr list -> nmap -> nat -> nat -> bool -> (nat * ev list) option **)
+
+let rec stack_scan c m0 k na lets =
+  let continue_with = fun e r ->
+    match r with
+    | Some p -> let (na', es) = p in Some (na', (app e es))
+    | None -> None
+  in
+  (match c with
+   | [] -> Some (na, [])
+   | i :: c' ->
+     (match i with
+      | IExprValue (v, _) ->
+        (match nmap_find v.v_inner m0 with
+         | Some d ->
+           continue_with ((EUse d) :: []) (stack_scan c' m0 k na lets)
+         | None -> None)
+      | IExprConst (cst, _) ->
+        continue_with ((EUseConst cst.c_name) :: [])
+          (stack_scan c' m0 k na lets)
+      | IExprStruct (v, idx, _) ->
+        (match nmap_find v.v_inner m0 with
+         | Some d ->
+           (match field_name v.v_ty idx with
+            | Some a ->
+              continue_with ((EUseField (d, a)) :: [])
+                (stack_scan c' m0 k na lets)
+            | None -> None)
+         | None -> None)
+      | ICall (f, _, _) ->
+        continue_with ((ECall f.f_name) :: []) (stack_scan c' m0 k na lets)
+      | ILet (v, _) ->
+        (match nmap_find v.v_inner m0 with
+         | Some _ -> None
+         | None ->
+           continue_with ((EDecl k) :: [])
+             (stack_scan c' ((v.v_inner, k) :: m0) (S k) na true))
+      | IBind (v, _) ->
+        (match nmap_find v.v_inner m0 with
+         | Some d ->
+           continue_with ((EAssign d) :: []) (stack_scan c' m0 k na lets)
+         | None -> None)
+      | IFnRet _ -> continue_with (ERet :: []) (stack_scan c' m0 k na lets)
+      | IFnRetLabel _ ->
+        continue_with (ERet :: []) (stack_scan c' m0 k na lets)
+      | IJumpFnRet _ ->
+        continue_with (ERet :: []) (stack_scan c' m0 k na lets)
+      | IFnArg (v, _, _) ->
+        if lets
+        then None
+        else (match nmap_find v.v_inner m0 with
+              | Some _ -> None
+              | None -> stack_scan c' ((v.v_inner, k) :: m0) (S k) (S na) lets)
+      | IExt (tag, _) ->
+        continue_with ((EExt tag) :: []) (stack_scan c' m0 k na lets)
+      | _ -> stack_scan c' m0 k na lets))
+
+(** val stack_events : instr list -> (nat * ev list) option **)
+
+let stack_events c =
+  stack_scan c [] O O false
+
+(** val chk_C03_fn : fn_decl -> block -> bool **)
+
+let chk_C03_fn f root =
+  match src_events f with
+  | Some es ->
+    (match stack_events root.b_ctx with
+     | Some p ->
+       let (na, et) = p in
+       (&&) (Nat.eqb na (length f.fn_params)) (evs_eqb es et)
+     | None -> false)
+  | None -> false
+
+(** val chk_C03_fns : fn_decl list -> block list -> bool **)
+
+let rec chk_C03_fns fs roots =
+  match fs with
+  | [] -> (match roots with
+           | [] -> true
+           | _ :: _ -> false)
+  | f :: fs' ->
+    (match roots with
+     | [] -> false
+     | r :: roots' -> (&&) (chk_C03_fn f r) (chk_C03_fns fs' roots'))
+
+(** val chk_C03 : program -> output -> bool **)
+
+let chk_C03 p o =
+  match o.o_errors with
+  | [] -> chk_C03_fns (functions_of p) o.o_fns
+  | _ :: _ -> true
+
+type rkind =
+| KTy of sem_ty
+| KCond
+| KUnk
+
+type regmap = (n * (rkind * bool)) list
+
+(** val reg_find : n -> regmap -> (rkind * bool) option **)
+
+let rec reg_find n0 = function
+| [] -> None
+| p :: m' -> let (k, x) = p in if N.eqb n0 k then Some x else reg_find n0 m'
+
+(** val reg_fix : n -> sem_ty -> regmap -> regmap **)
+
+let rec reg_fix n0 t = function
+| [] -> []
+| p :: m' ->
+  let (k, p0) = p in
+  let (x, b) = p0 in
+  if N.eqb n0 k
+  then (k, ((KTy t), b)) :: m'
+  else (k, (x, b)) :: (reg_fix n0 t m')
+
+(** val chk_operand : regmap -> eres -> regmap option **)
+
+let chk_operand m0 e =
+  match e.r_val with
+  | RReg n0 ->
+    (match reg_find n0 m0 with
+     | Some p ->
+       let (r, _) = p in
+       (match r with
+        | KTy t -> if sem_ty_eqb e.r_ty t then Some m0 else None
+        | KCond -> None
+        | KUnk -> Some (reg_fix n0 e.r_ty m0))
+     | None ->
+       if N.eqb n0 N0
+       then None
+       else (match reg_find (N.sub n0 (Npos XH)) m0 with
+             | Some p ->
+               let (r, b) = p in
+               (match r with
+                | KTy t ->
+                  if b
+                  then if sem_ty_eqb e.r_ty t then Some m0 else None
+                  else None
+                | _ -> None)
+             | None -> None))
+  | RPrim p -> if sem_ty_eqb e.r_ty (SPrim p.pv_ty) then Some m0 else None
+
+(** val chk_operands : regmap -> eres list -> regmap option **)
+
+let rec chk_operands m0 = function
+| [] -> Some m0
+| e :: l' ->
+  (match chk_operand m0 e with
+   | Some m' -> chk_operands m' l'
+   | None -> None)
+
+(** val is_cond_reg : regmap -> n -> bool **)
+
+let is_cond_reg m0 n0 =
+  match reg_find n0 m0 with
+  | Some p -> let (r, _) = p in (match r with
+                                 | KCond -> true
+                                 | _ -> false)
+  | None -> false
+
+(** val value_eqb0 : value -> value -> bool **)
+
+let value_eqb0 a b =
+  (&&) ((&&) (eqb1 a.v_inner b.v_inner) (sem_ty_eqb a.v_ty b.v_ty))
+    (eqb a.v_mut b.v_mut)
+
+type valmap = (string * value) list
+
+(** val declared : valmap -> value -> bool **)
+
+let declared vs v =
+  match alookup v.v_inner vs with
+  | Some d -> value_eqb0 v d
+  | None -> false
+
+(** val attr_ty_at : n -> ((string * n) * sem_ty) list -> sem_ty option **)
+
+let rec attr_ty_at idx = function
+| [] -> None
+| p :: l' ->
+  let (p0, t) = p in
+  let (_, i) = p0 in if N.eqb idx i then Some t else attr_ty_at idx l'
+
+(** val field_ty : sem_ty -> n -> sem_ty option **)
+
+let field_ty t idx =
+  match t with
+  | SStruct (_, attrs) -> attr_ty_at idx attrs
+  | _ -> None
+
+(** val tys_eqb : sem_ty list -> sem_ty list -> bool **)
+
+let tys_eqb a b =
+  list_eqb sem_ty_eqb a b
+
+(** val chk_call : globals -> func_sem -> eres list -> bool **)
+
+let chk_call g f args =
+  match alookup f.f_name g.g_funcs with
+  | Some fd ->
+    (&&)
+      ((&&) (func_sem_eqb f fd) (Nat.eqb (length args) (length f.f_params)))
+      (tys_eqb (map (fun e -> e.r_ty) args) f.f_params)
+  | None -> false
+
+(** val chk_const : globals -> const_sem -> bool **)
+
+let chk_const g c =
+  match alookup c.c_name g.g_consts with
+  | Some d -> const_sem_eqb c d
+  | None -> false
+
+(** val scan_C04 :
+    globals -> sem_ty -> instr list -> regmap -> valmap -> (ident * ast_ty)
+    list -> bool **)
+
+let rec scan_C04 g rT c m0 vs ps =
+  match c with
+  | [] -> (match ps with
+           | [] -> true
+           | _ :: _ -> false)
+  | i :: c' ->
+    (match i with
+     | IExprValue (v, r) ->
+       (&&) (declared vs v)
+         (scan_C04 g rT c' ((r, ((KTy v.v_ty), false)) :: m0) vs ps)
+     | IExprConst (cst, r) ->
+       (&&) (chk_const g cst)
+         (scan_C04 g rT c' ((r, ((KTy cst.c_ty), false)) :: m0) vs ps)
+     | IExprStruct (v, idx, r) ->
+       (&&) (declared vs v)
+         (match field_ty v.v_ty idx with
+          | Some t -> scan_C04 g rT c' ((r, ((KTy t), true)) :: m0) vs ps
+          | None -> false)
+     | IExprOp (_, l, r, reg) ->
+       (match chk_operands m0 (l :: (r :: [])) with
+        | Some m' ->
+          (&&) (sem_ty_eqb l.r_ty r.r_ty)
+            (scan_C04 g rT c' ((reg, ((KTy r.r_ty), false)) :: m') vs ps)
+        | None -> false)
+     | ICall (f, args, r) ->
+       (match chk_operands m0 args with
+        | Some m' ->
+          (&&) (chk_call g f args)
+            (scan_C04 g rT c' ((r, ((KTy f.f_ty), true)) :: m') vs ps)
+        | None -> false)
+     | ILet (v, e) ->
+       (match chk_operand m0 e with
+        | Some m' ->
+          (&&) (sem_ty_eqb v.v_ty e.r_ty)
+            (scan_C04 g rT c' m' ((v.v_inner, v) :: vs) ps)
+        | None -> false)
+     | IBind (v, e) ->
+       (match chk_operand m0 e with
+        | Some m' ->
+          (&&)
+            ((&&) ((&&) (declared vs v) v.v_mut) (sem_ty_eqb v.v_ty e.r_ty))
+            (scan_C04 g rT c' m' vs ps)
+        | None -> false)
+     | IFnRet e ->
+       (match chk_operand m0 e with
+        | Some m' -> (&&) (sem_ty_eqb e.r_ty rT) (scan_C04 g rT c' m' vs ps)
+        | None -> false)
+     | IFnRetLabel e ->
+       (match chk_operand m0 e with
+        | Some m' -> (&&) (sem_ty_eqb e.r_ty rT) (scan_C04 g rT c' m' vs ps)
+        | None -> false)
+     | IIfCondExpr (e, _, _) ->
+       (match chk_operand m0 e with
+        | Some m' -> scan_C04 g rT c' m' vs ps
+        | None -> false)
+     | ICondExpr (l, r, _, reg) ->
+       (match chk_operands m0 (l :: (r :: [])) with
+        | Some m' ->
+          (&&) ((&&) (sem_ty_eqb l.r_ty r.r_ty) (is_prim l.r_ty))
+            (scan_C04 g rT c' ((reg, (KCond, false)) :: m') vs ps)
+        | None -> false)
+     | IJumpFnRet e ->
+       (match chk_operand m0 e with
+        | Some m' -> (&&) (sem_ty_eqb e.r_ty rT) (scan_C04 g rT c' m' vs ps)
+        | None -> false)
+     | ILogic (_, lreg, rreg, reg) ->
+       (&&) ((&&) (is_cond_reg m0 lreg) (is_cond_reg m0 rreg))
+         (scan_C04 g rT c' ((reg, (KCond, false)) :: m0) vs ps)
+     | IIfCondLogic (_, _, reg) ->
+       (&&) (is_cond_reg m0 reg) (scan_C04 g rT c' m0 vs ps)
+     | IFnArg (v, pname, pty) ->
+       (match ps with
+        | [] -> false
+        | p :: ps' ->
+          let (x, t) = p in
+          (&&)
+            ((&&)
+              ((&&)
+                ((&&) (eqb1 pname x.iname) (sem_ty_eqb pty (sem_of_ty t)))
+                (sem_ty_eqb v.v_ty pty)) (negb v.v_mut))
+            (scan_C04 g rT c' m0 ((v.v_inner, v) :: vs) ps'))
+     | IExt (_, r) -> scan_C04 g rT c' ((r, (KUnk, false)) :: m0) vs ps
+     | _ -> scan_C04 g rT c' m0 vs ps)
+
+(** val chk_C04_fn : globals -> fn_decl -> block -> bool **)
+
+let chk_C04_fn g f root =
+  scan_C04 g (sem_of_ty f.fn_result) root.b_ctx [] [] f.fn_params
+
+(** val chk_C04_fns : globals -> fn_decl list -> block list -> bool **)
+
+let rec chk_C04_fns g fs roots =
+  match fs with
+  | [] -> (match roots with
+           | [] -> true
+           | _ :: _ -> false)
+  | f :: fs' ->
+    (match roots with
+     | [] -> false
+     | r :: roots' -> (&&) (chk_C04_fn g f r) (chk_C04_fns g fs' roots'))
+
+(** val chk_C04 : program -> output -> bool **)
+
+let chk_C04 p o =
+  match o.o_errors with
+  | [] -> chk_C04_fns o.o_globals (functions_of p) o.o_fns
+  | _ :: _ -> true
+
+(** val pv_eqb : prim_val -> prim_val -> bool **)
+
+let pv_eqb a b =
+  (&&) (prim_ty_eqb a.pv_ty b.pv_ty) (Z.eqb a.pv_bits b.pv_bits)
+
+(** val bop_eqb : binop -> binop -> bool **)
+
+let bop_eqb a b =
+  eqb1 (binop_name a) (binop_name b)
+
+(** val cop_eqb : cmpop -> cmpop -> bool **)
+
+let cop_eqb a b =
+  eqb1 (cmpop_name a) (cmpop_name b)
+
+(** val lop_eqb : logicop -> logicop -> bool **)
+
+let lop_eqb a b =
+  eqb1 (logicop_name a) (logicop_name b)
+
+(** val nthN : 'a1 list -> n -> 'a1 option **)
+
+let rec nthN l n0 =
+  match l with
+  | [] -> None
+  | x :: l' -> if N.eqb n0 N0 then Some x else nthN l' (N.sub n0 (Npos XH))
+
+(** val same_len : 'a1 list -> 'a2 list -> bool **)
+
+let rec same_len a b =
+  match a with
+  | [] -> (match b with
+           | [] -> true
+           | _ :: _ -> false)
+  | _ :: a' -> (match b with
+                | [] -> false
+                | _ :: b' -> same_len a' b')
+
+type dt =
+| DLit of prim_val
+| DRead of string
+| DConst of string
+| DField of string * n
+| DCall of string * dt list
+| DExt of n
+| DOp of binop * dt * dt
+| DCmp of cmpop * dt * dt
+| DLogic of logicop * dt * dt
+| DUnknown of n
+
+type denv = ((n * dt) * bool) list
+
+(** val env_find : n -> denv -> (dt * bool) option **)
+
+let rec env_find n0 = function
+| [] -> None
+| p :: env' ->
+  let (p0, b) = p in
+  let (m0, t) = p0 in if N.eqb n0 m0 then Some (t, b) else env_find n0 env'
+
+(** val reg_tree : denv -> n -> dt **)
+
+let reg_tree env n0 =
+  match env_find n0 env with
+  | Some p -> let (t, _) = p in t
+  | None -> DUnknown n0
+
+(** val operand : denv -> eres -> dt **)
+
+let operand env e =
+  match e.r_val with
+  | RReg n0 ->
+    (match env_find n0 env with
+     | Some p -> let (t, _) = p in t
+     | None ->
+       if N.eqb n0 N0
+       then DUnknown n0
+       else (match env_find (N.sub n0 (Npos XH)) env with
+             | Some p -> let (t, b) = p in if b then t else DUnknown n0
+             | None -> DUnknown n0))
+  | RPrim p -> DLit p
+
+type usite =
+| ULet of string * dt
+| UAssign of string * dt
+| URet of dt
+| UCondSingle of dt
+| UCondLogic of dt
+| UCall of string * dt list
+
+(** val scan0 : denv -> instr list -> usite list **)
+
+let rec scan0 env = function
+| [] -> []
+| i :: c' ->
+  (match i with
+   | IExprValue (v, r) -> scan0 (((r, (DRead v.v_inner)), false) :: env) c'
+   | IExprConst (k, r) -> scan0 (((r, (DConst k.c_name)), false) :: env) c'
+   | IExprStruct (v, idx, r) ->
+     scan0 (((r, (DField (v.v_inner, idx))), true) :: env) c'
+   | IExprOp (o, l, r, reg) ->
+     scan0 (((reg, (DOp (o, (operand env l), (operand env r)))),
+       false) :: env) c'
+   | ICall (f, args, r) ->
+     let a = map (operand env) args in
+     (UCall (f.f_name,
+     a)) :: (scan0 (((r, (DCall (f.f_name, a))), true) :: env) c')
+   | ILet (v, e) -> (ULet (v.v_inner, (operand env e))) :: (scan0 env c')
+   | IBind (v, e) -> (UAssign (v.v_inner, (operand env e))) :: (scan0 env c')
+   | IFnRet e -> (URet (operand env e)) :: (scan0 env c')
+   | IFnRetLabel e -> (URet (operand env e)) :: (scan0 env c')
+   | IIfCondExpr (e, _, _) -> (UCondSingle (operand env e)) :: (scan0 env c')
+   | ICondExpr (l, r, cmp, reg) ->
+     scan0 (((reg, (DCmp (cmp, (operand env l), (operand env r)))),
+       false) :: env) c'
+   | IJumpFnRet e -> (URet (operand env e)) :: (scan0 env c')
+   | ILogic (o, lreg, rreg, reg) ->
+     scan0 (((reg, (DLogic (o, (reg_tree env lreg), (reg_tree env rreg)))),
+       false) :: env) c'
+   | IIfCondLogic (_, _, reg) ->
+     (UCondLogic (reg_tree env reg)) :: (scan0 env c')
+   | IExt (tag, r) -> scan0 (((r, (DExt tag)), false) :: env) c'
+   | _ -> scan0 env c')
+
+(** val decl_of : instr -> (string * sem_ty) list **)
+
+let decl_of = function
+| ILet (v, _) -> (v.v_inner, v.v_ty) :: []
+| IFnArg (v, _, _) -> (v.v_inner, v.v_ty) :: []
+| _ -> []
+
+(** val stack_decls : instr list -> (string * sem_ty) list **)
+
+let stack_decls c =
+  flat_map decl_of c
+
+(** val decl_index : string -> (string * sem_ty) list -> n -> n option **)
+
+let rec decl_index inner d k =
+  match d with
+  | [] -> None
+  | p :: d' ->
+    let (n0, _) = p in
+    if eqb1 inner n0 then Some k else decl_index inner d' (N.add k (Npos XH))
+
+type tok =
+| KLit of prim_val
+| KVar of n * string
+| KConst of string
+| KField of n * string * n
+| KCallOpen of string
+| KCallSep
+| KCallClose
+| KExt of n
+| KOp of binop
+| KCmp of cmpop
+| KLogic of logicop
+| KOpen
+| KClose
+| KBad
+
+(** val tok_eqb : bool -> tok -> tok -> bool **)
+
+let tok_eqb sm a b =
+  match a with
+  | KLit p -> (match b with
+               | KLit q -> pv_eqb p q
+               | _ -> false)
+  | KVar (k, x) ->
+    (match b with
+     | KVar (k', x') -> (&&) (eqb1 x x') ((||) (negb sm) (N.eqb k k'))
+     | KConst y -> (&&) (negb sm) (eqb1 x y)
+     | _ -> false)
+  | KConst x ->
+    (match b with
+     | KVar (_, y) -> (&&) (negb sm) (eqb1 x y)
+     | KConst y -> eqb1 x y
+     | _ -> false)
+  | KField (k, x, i) ->
+    (match b with
+     | KField (k', x', i') ->
+       (&&) ((&&) (eqb1 x x') (N.eqb i i')) ((||) (negb sm) (N.eqb k k'))
+     | _ -> false)
+  | KCallOpen f -> (match b with
+                    | KCallOpen g -> eqb1 f g
+                    | _ -> false)
+  | KCallSep -> (match b with
+                 | KCallSep -> true
+                 | _ -> false)
+  | KCallClose -> (match b with
+                   | KCallClose -> true
+                   | _ -> false)
+  | KExt t -> (match b with
+               | KExt u -> N.eqb t u
+               | _ -> false)
+  | KOp o -> (match b with
+              | KOp o' -> bop_eqb o o'
+              | _ -> false)
+  | KCmp c -> (match b with
+               | KCmp c' -> cop_eqb c c'
+               | _ -> false)
+  | KLogic o -> (match b with
+                 | KLogic o' -> lop_eqb o o'
+                 | _ -> false)
+  | KOpen -> (match b with
+              | KOpen -> true
+              | _ -> false)
+  | KClose -> (match b with
+               | KClose -> true
+               | _ -> false)
+  | KBad -> false
+
+(** val toks_eqb : bool -> tok list -> tok list -> bool **)
+
+let rec toks_eqb sm a b =
+  match a with
+  | [] -> (match b with
+           | [] -> true
+           | _ :: _ -> false)
+  | x :: a' ->
+    (match b with
+     | [] -> false
+     | y :: b' -> (&&) (tok_eqb sm x y) (toks_eqb sm a' b'))
+
+(** val tokss_eqb : bool -> tok list list -> tok list list -> bool **)
+
+let rec tokss_eqb sm a b =
+  match a with
+  | [] -> (match b with
+           | [] -> true
+           | _ :: _ -> false)
+  | x :: a' ->
+    (match b with
+     | [] -> false
+     | y :: b' -> (&&) (toks_eqb sm x y) (tokss_eqb sm a' b'))
+
+(** val var_tok : (string * sem_ty) list -> string list -> string -> tok **)
+
+let var_tok d nM inner =
+  match decl_index inner d N0 with
+  | Some k -> (match nthN nM k with
+               | Some x -> KVar (k, x)
+               | None -> KBad)
+  | None -> KBad
+
+(** val dfield_tok :
+    (string * sem_ty) list -> string list -> string -> n -> tok **)
+
+let dfield_tok d nM inner idx =
+  match decl_index inner d N0 with
+  | Some k ->
+    (match nthN nM k with
+     | Some x -> KField (k, x, idx)
+     | None -> KBad)
+  | None -> KBad
+
+(** val dt_toks :
+    (string * sem_ty) list -> string list -> dt -> tok list -> tok list **)
+
+let rec dt_toks d nM t acc =
+  match t with
+  | DLit p -> (KLit p) :: acc
+  | DRead inner -> (var_tok d nM inner) :: acc
+  | DConst c -> (KConst c) :: acc
+  | DField (inner, idx) -> (dfield_tok d nM inner idx) :: acc
+  | DCall (f, args) ->
+    (KCallOpen
+      f) :: (let rec go = function
+             | [] -> KCallClose :: acc
+             | a :: l' -> dt_toks d nM a (KCallSep :: (go l'))
+             in go args)
+  | DExt tag -> (KExt tag) :: acc
+  | DOp (o, l, r) -> dt_toks d nM l ((KOp o) :: (dt_toks d nM r acc))
+  | DCmp (c, l, r) ->
+    KOpen :: (dt_toks d nM l ((KCmp c) :: (dt_toks d nM r (KClose :: acc))))
+  | DLogic (o, l, r) ->
+    KOpen :: (dt_toks d nM l ((KLogic o) :: (dt_toks d nM r (KClose :: acc))))
+  | DUnknown _ -> KBad :: acc
+
+type scope0 = (string * n) list
+
+(** val sc_find : string -> scope0 -> n option **)
+
+let rec sc_find x = function
+| [] -> None
+| p :: sc' -> let (y, k) = p in if eqb1 x y then Some k else sc_find x sc'
+
+type esite =
+| ELet of string * n * tok list
+| EAssign0 of string * n option * tok list
+| ERet0 of tok list
+| ECondSingle of tok list
+| ECondLogic of tok list
+| ECall0 of string * tok list list
+
+(** val expr_calls : expr -> (ident * expr list) list **)
+
+let rec expr_calls = function
+| Expr (v, rest) ->
+  app (val_calls v)
+    (let rec go = function
+     | [] -> []
+     | p :: l' -> let (_, v') = p in app (val_calls v') (go l')
+     in go rest)
+
+(** val val_calls : expr_val -> (ident * expr list) list **)
+
+and val_calls = function
+| EVCall (f, args) ->
+  app
+    (let rec go = function
+     | [] -> []
+     | a :: l' -> app (expr_calls a) (go l')
+     in go args) ((f, args) :: [])
+| EVSub e -> expr_calls e
+| _ -> []
+
+(** val name_tok : scope0 -> ident -> tok **)
+
+let name_tok sc x =
+  match sc_find x.iname sc with
+  | Some k -> KVar (k, x.iname)
+  | None -> KConst x.iname
+
+(** val field_tok :
+    (string * sem_ty) list -> scope0 -> ident -> ident -> tok **)
+
+let field_tok d sc x a =
+  match sc_find x.iname sc with
+  | Some k ->
+    (match nthN d k with
+     | Some p ->
+       let (_, s0) = p in
+       (match s0 with
+        | SStruct (_, attrs) ->
+          (match attr_lookup a.iname attrs with
+           | Some p0 -> let (idx, _) = p0 in KField (k, x.iname, idx)
+           | None -> KBad)
+        | _ -> KBad)
+     | None -> KBad)
+  | None -> KBad
+
+(** val expr_toks :
+    (string * sem_ty) list -> scope0 -> expr -> tok list -> tok list **)
+
+let expr_toks d sc =
+  let rec expr_toks0 e acc =
+    let Expr (v, rest) = e in
+    val_toks v
+      (let rec go = function
+       | [] -> acc
+       | p :: l' -> let (o, v') = p in (KOp o) :: (val_toks v' (go l'))
+       in go rest)
+  and val_toks v acc =
+    match v with
+    | EVName x -> (name_tok sc x) :: acc
+    | EVPrim p -> (KLit p) :: acc
+    | EVCall (f, args) ->
+      (KCallOpen
+        f.iname) :: (let rec go = function
+                     | [] -> KCallClose :: acc
+                     | a :: l' -> expr_toks0 a (KCallSep :: (go l'))
+                     in go args)
+    | EVField (x, a) -> (field_tok d sc x a) :: acc
+    | EVSub e -> expr_toks0 e acc
+    | EVExt (_, tag) -> (KExt tag) :: acc
+  in expr_toks0
+
+(** val lcond_toks :
+    (string * sem_ty) list -> scope0 -> lcond -> tok list -> tok list **)
+
+let rec lcond_toks d sc c acc =
+  let LC (l, cmp, r, next) = c in
+  (match next with
+   | Some p ->
+     let (o, c') = p in
+     KOpen :: (KOpen :: (expr_toks d sc l ((KCmp
+                          cmp) :: (expr_toks d sc r (KClose :: ((KLogic
+                                    o) :: (lcond_toks d sc c' (KClose :: acc))))))))
+   | None ->
+     KOpen :: (expr_toks d sc l ((KCmp
+                cmp) :: (expr_toks d sc r (KClose :: acc)))))
+
+(** val etoks : (string * sem_ty) list -> scope0 -> expr -> tok list **)
+
+let etoks d sc e =
+  expr_toks d sc e []
+
+(** val call_site :
+    (string * sem_ty) list -> scope0 -> (ident * expr list) -> esite **)
+
+let call_site d sc c =
+  ECall0 ((fst c).iname, (map (etoks d sc) (snd c)))
+
+(** val call_sites :
+    (string * sem_ty) list -> scope0 -> expr -> esite list **)
+
+let call_sites d sc e =
+  map (call_site d sc) (expr_calls e)
+
+(** val lcond_calls :
+    (string * sem_ty) list -> scope0 -> lcond -> esite list **)
+
+let rec lcond_calls d sc = function
+| LC (l, _, r, next) ->
+  app (call_sites d sc l)
+    (app (call_sites d sc r)
+      (match next with
+       | Some p -> let (_, c') = p in lcond_calls d sc c'
+       | None -> []))
+
+(** val cond_sites :
+    (string * sem_ty) list -> scope0 -> cond -> esite list **)
+
+let cond_sites d sc = function
+| CSingle e -> app (call_sites d sc e) ((ECondSingle (etoks d sc e)) :: [])
+| CLogic lc ->
+  app (lcond_calls d sc lc) ((ECondLogic (lcond_toks d sc lc [])) :: [])
+
+(** val stmt_sites :
+    (string * sem_ty) list -> stmt -> scope0 -> n -> (esite list * scope0) * n **)
+
+let stmt_sites d =
+  let rec stmt_sites0 s sc k =
+    match s with
+    | SLet (x, _, _, e) ->
+      (((app (call_sites d sc e) ((ELet (x.iname, k, (etoks d sc e))) :: [])),
+        ((x.iname, k) :: sc)), (N.add k (Npos XH)))
+    | SBind (x, e) ->
+      (((app (call_sites d sc e) ((EAssign0 (x.iname, (sc_find x.iname sc),
+          (etoks d sc e))) :: [])), sc), k)
+    | SCall (f, args) ->
+      (((app (flat_map (call_sites d sc) args)
+          ((call_site d sc (f, args)) :: [])), sc), k)
+    | SIf i -> let (l, k') = if_sites i sc k in ((l, sc), k')
+    | SLoop body ->
+      let (l, k') =
+        let rec go ss sc0 k0 =
+          match ss with
+          | [] -> ([], k0)
+          | s' :: ss' ->
+            let (p, k1) = stmt_sites0 s' sc0 k0 in
+            let (a, sc1) = p in let (b, k2) = go ss' sc1 k1 in ((app a b), k2)
+        in go body sc k
+      in
+      ((l, sc), k')
+    | SRet e ->
+      (((app (call_sites d sc e) ((ERet0 (etoks d sc e)) :: [])), sc), k)
+    | SExprStmt e ->
+      (((app (call_sites d sc e) ((ERet0 (etoks d sc e)) :: [])), sc), k)
+    | _ -> (([], sc), k)
+  and if_sites i sc k =
+    let IfS (c, body, els, elif) = i in
+    let (b, k1) = ifbody_sites body sc k in
+    let (e, k2) =
+      match els with
+      | Some eb -> ifbody_sites eb sc k1
+      | None ->
+        (match elif with
+         | Some ei -> if_sites ei sc k1
+         | None -> ([], k1))
+    in
+    ((app (cond_sites d sc c) (app b e)), k2)
+  and ifbody_sites b sc k =
+    match b with
+    | IBIf ss ->
+      let rec go ss0 sc0 k0 =
+        match ss0 with
+        | [] -> ([], k0)
+        | s' :: ss' ->
+          let (p, k1) = stmt_sites0 s' sc0 k0 in
+          let (a, sc1) = p in let (b0, k2) = go ss' sc1 k1 in ((app a b0), k2)
+      in go ss sc k
+    | IBLoop ss ->
+      let rec go ss0 sc0 k0 =
+        match ss0 with
+        | [] -> ([], k0)
+        | s' :: ss' ->
+          let (p, k1) = stmt_sites0 s' sc0 k0 in
+          let (a, sc1) = p in let (b0, k2) = go ss' sc1 k1 in ((app a b0), k2)
+      in go ss sc k
+  in stmt_sites0
+
+(** val stmts_sites :
+    (string * sem_ty) list -> stmt list -> scope0 -> n -> esite list **)
+
+let rec stmts_sites d ss sc k =
+  match ss with
+  | [] -> []
+  | s :: ss' ->
+    let (p, k1) = stmt_sites d s sc k in
+    let (a, sc1) = p in app a (stmts_sites d ss' sc1 k1)
+
+(** val param_scope0 : (ident * ast_ty) list -> scope0 -> n -> scope0 * n **)
+
+let rec param_scope0 ps sc k =
+  match ps with
+  | [] -> (sc, k)
+  | p :: ps' ->
+    let (x, _) = p in
+    param_scope0 ps' ((x.iname, k) :: sc) (N.add k (Npos XH))
+
+(** val fn_sites : (string * sem_ty) list -> fn_decl -> esite list **)
+
+let fn_sites d f =
+  let (sc, k) = param_scope0 f.fn_params [] N0 in stmts_sites d f.fn_body sc k
+
+(** val let_name : esite -> string list **)
+
+let let_name = function
+| ELet (x, _, _) -> x :: []
+| _ -> []
+
+(** val decl_names0 : fn_decl -> esite list -> string list **)
+
+let decl_names0 f es =
+  app (map (fun p -> (fst p).iname) f.fn_params) (flat_map let_name es)
+
+(** val opt_N_eqb : n option -> n -> bool **)
+
+let opt_N_eqb a b =
+  match a with
+  | Some x -> N.eqb x b
+  | None -> false
+
+(** val opt_str_eqb : string option -> string -> bool **)
+
+let opt_str_eqb a b =
+  match a with
+  | Some x -> eqb1 x b
+  | None -> false
+
+(** val tree_is :
+    bool -> (string * sem_ty) list -> string list -> dt -> tok list -> bool **)
+
+let tree_is sm d nM t e =
+  toks_eqb sm (dt_toks d nM t []) e
+
+(** val site_eqb :
+    bool -> (string * sem_ty) list -> string list -> usite -> esite -> bool **)
+
+let site_eqb sm d nM u e =
+  match u with
+  | ULet (inner, t) ->
+    (match e with
+     | ELet (x, k, toks) ->
+       (&&)
+         (match decl_index inner d N0 with
+          | Some k' ->
+            (&&) (opt_str_eqb (nthN nM k') x) ((||) (negb sm) (N.eqb k k'))
+          | None -> false) (tree_is sm d nM t toks)
+     | _ -> false)
+  | UAssign (inner, t) ->
+    (match e with
+     | EAssign0 (x, k, toks) ->
+       (&&)
+         (match decl_index inner d N0 with
+          | Some k' ->
+            (&&) (opt_str_eqb (nthN nM k') x)
+              ((||) (negb sm) (opt_N_eqb k k'))
+          | None -> false) (tree_is sm d nM t toks)
+     | _ -> false)
+  | URet t -> (match e with
+               | ERet0 toks -> tree_is sm d nM t toks
+               | _ -> false)
+  | UCondSingle t ->
+    (match e with
+     | ECondSingle toks -> tree_is sm d nM t toks
+     | _ -> false)
+  | UCondLogic t ->
+    (match e with
+     | ECondLogic toks -> tree_is sm d nM t toks
+     | _ -> false)
+  | UCall (f, args) ->
+    (match e with
+     | ECall0 (g, toks) ->
+       (&&) (eqb1 f g)
+         (tokss_eqb sm (map (fun a -> dt_toks d nM a []) args) toks)
+     | _ -> false)
+
+(** val sites_eqb :
+    bool -> (string * sem_ty) list -> string list -> usite list -> esite list
+    -> bool **)
+
+let rec sites_eqb sm d nM us es =
+  match us with
+  | [] -> (match es with
+           | [] -> true
+           | _ :: _ -> false)
+  | u :: us' ->
+    (match es with
+     | [] -> false
+     | e :: es' -> (&&) (site_eqb sm d nM u e) (sites_eqb sm d nM us' es'))
+
+(** val chk_C06_fn : bool -> fn_decl -> block -> bool **)
+
+let chk_C06_fn sm f root =
+  let c = root.b_ctx in
+  let d = stack_decls c in
+  let es = fn_sites d f in
+  let nM = decl_names0 f es in
+  (&&) (same_len d nM) (sites_eqb sm d nM (scan0 [] c) es)
+
+(** val chk_C06_fns : bool -> fn_decl list -> block list -> bool **)
+
+let rec chk_C06_fns sm fs roots =
+  match fs with
+  | [] -> (match roots with
+           | [] -> true
+           | _ :: _ -> false)
+  | f :: fs' ->
+    (match roots with
+     | [] -> false
+     | r :: roots' -> (&&) (chk_C06_fn sm f r) (chk_C06_fns sm fs' roots'))
+
+(** val chk_C06_gen : bool -> program -> output -> bool **)
+
+let chk_C06_gen sm p o =
+  match o.o_errors with
+  | [] -> chk_C06_fns sm (functions_of p) o.o_fns
+  | _ :: _ -> true
+
+(** val chk_C06 : program -> output -> bool **)
+
+let chk_C06 =
+  chk_C06_gen false
+
+(** val chk_C06_scoped : program -> output -> bool **)
+
+let chk_C06_scoped =
+  chk_C06_gen true
+
+(** val expr_exts : expr -> (n * ast_ty) list **)
+
+let rec expr_exts = function
+| Expr (v, rest) ->
+  app (val_exts v)
+    (let rec go = function
+     | [] -> []
+     | p :: l' -> let (_, v') = p in app (val_exts v') (go l')
+     in go rest)
+
+(** val val_exts : expr_val -> (n * ast_ty) list **)
+
+and val_exts = function
+| EVCall (_, args) ->
+  let rec go = function
+  | [] -> []
+  | a :: l' -> app (expr_exts a) (go l')
+  in go args
+| EVSub e -> expr_exts e
+| EVExt (t, tag) -> (tag, t) :: []
+| _ -> []
+
+(** val lcond_exts : lcond -> (n * ast_ty) list **)
+
+let rec lcond_exts = function
+| LC (l, _, r, next) ->
+  app (expr_exts l)
+    (app (expr_exts r)
+      (match next with
+       | Some p -> let (_, c') = p in lcond_exts c'
+       | None -> []))
+
+(** val cond_exts : cond -> (n * ast_ty) list **)
+
+let cond_exts = function
+| CSingle e -> expr_exts e
+| CLogic l -> lcond_exts l
+
+(** val stmt_exts : stmt -> (n * ast_ty) list **)
+
+let rec stmt_exts = function
+| SLet (_, _, _, e) -> expr_exts e
+| SBind (_, e) -> expr_exts e
+| SCall (_, args) -> flat_map expr_exts args
+| SIf i -> if_exts i
+| SLoop body ->
+  let rec go = function
+  | [] -> []
+  | x :: l' -> app (stmt_exts x) (go l')
+  in go body
+| SRet e -> expr_exts e
+| SExprStmt e -> expr_exts e
+| _ -> []
+
+(** val if_exts : ifstmt -> (n * ast_ty) list **)
+
+and if_exts = function
+| IfS (c, body, els, elif) ->
+  app (cond_exts c)
+    (app (ifbody_exts body)
+      (match els with
+       | Some eb -> ifbody_exts eb
+       | None -> (match elif with
+                  | Some ei -> if_exts ei
+                  | None -> [])))
+
+(** val ifbody_exts : ifbody -> (n * ast_ty) list **)
+
+and ifbody_exts = function
+| IBIf ss ->
+  let rec go = function
+  | [] -> []
+  | x :: l' -> app (stmt_exts x) (go l')
+  in go ss
+| IBLoop ss ->
+  let rec go = function
+  | [] -> []
+  | x :: l' -> app (stmt_exts x) (go l')
+  in go ss
+
+(** val fn_exts : fn_decl -> (n * ast_ty) list **)
+
+let fn_exts f =
+  flat_map stmt_exts f.fn_body
+
+(** val ext_of : instr -> (n * n) list **)
+
+let ext_of = function
+| IExt (tag, r) -> (tag, r) :: []
+| _ -> []
+
+(** val stack_exts : instr list -> (n * n) list **)
+
+let stack_exts c =
+  flat_map ext_of c
+
+(** val list_N_eqb : n list -> n list -> bool **)
+
+let rec list_N_eqb a b =
+  match a with
+  | [] -> (match b with
+           | [] -> true
+           | _ :: _ -> false)
+  | x :: a' ->
+    (match b with
+     | [] -> false
+     | y :: b' -> (&&) (N.eqb x y) (list_N_eqb a' b'))
+
+(** val chk_order_fn : fn_decl -> block -> bool **)
+
+let chk_order_fn f root =
+  list_N_eqb (map fst (stack_exts root.b_ctx)) (map fst (fn_exts f))
+
+(** val operands_of : instr -> eres list **)
+
+let operands_of = function
+| IExprOp (_, l, r, _) -> l :: (r :: [])
+| ICall (_, args, _) -> args
+| ILet (_, e) -> e :: []
+| IBind (_, e) -> e :: []
+| IFnRet e -> e :: []
+| IFnRetLabel e -> e :: []
+| IIfCondExpr (e, _, _) -> e :: []
+| ICondExpr (l, r, _, _) -> l :: (r :: [])
+| IJumpFnRet e -> e :: []
+| _ -> []
+
+(** val ext_pos : n -> (n * n) list -> n option **)
+
+let rec ext_pos n0 = function
+| [] -> None
+| p :: s' -> let (r, j) = p in if N.eqb n0 r then Some j else ext_pos n0 s'
+
+(** val nthN0 : 'a1 list -> n -> 'a1 option **)
+
+let rec nthN0 l n0 =
+  match l with
+  | [] -> None
+  | x :: l' -> if N.eqb n0 N0 then Some x else nthN0 l' (N.sub n0 (Npos XH))
+
+(** val operand_ty_ok : (n * ast_ty) list -> (n * n) list -> eres -> bool **)
+
+let operand_ty_ok src seen0 e =
+  match e.r_val with
+  | RReg n0 ->
+    (match ext_pos n0 seen0 with
+     | Some j ->
+       (match nthN0 src j with
+        | Some p -> let (_, t) = p in sem_ty_eqb e.r_ty (sem_of_ty t)
+        | None -> false)
+     | None -> true)
+  | RPrim _ -> true
+
+(** val scan_types :
+    (n * ast_ty) list -> (n * n) list -> n -> instr list -> bool **)
+
+let rec scan_types src seen0 j = function
+| [] -> true
+| i :: c' ->
+  (&&) (forallb (operand_ty_ok src seen0) (operands_of i))
+    (match i with
+     | IExt (_, r) -> scan_types src ((r, j) :: seen0) (N.add j (Npos XH)) c'
+     | _ -> scan_types src seen0 j c')
+
+(** val count_N : n -> n list -> n **)
+
+let rec count_N n0 = function
+| [] -> N0
+| m0 :: l' -> N.add (if N.eqb n0 m0 then Npos XH else N0) (count_N n0 l')
+
+(** val used_once : instr list -> bool **)
+
+let used_once c =
+  let uses = flat_map use_regs c in
+  forallb (fun tr -> N.eqb (count_N (snd tr) uses) (Npos XH)) (stack_exts c)
+
+(** val chk_types_fn : fn_decl -> block -> bool **)
+
+let chk_types_fn f root =
+  (&&) (scan_types (fn_exts f) [] N0 root.b_ctx) (used_once root.b_ctx)
+
+(** val ext_eqb : (n * n) -> (n * n) -> bool **)
+
+let ext_eqb a b =
+  (&&) (N.eqb (fst a) (fst b)) (N.eqb (snd a) (snd b))
+
+(** val remove_one : (n * n) -> (n * n) list -> (n * n) list option **)
+
+let rec remove_one x = function
+| [] -> None
+| y :: l' ->
+  if ext_eqb x y
+  then Some l'
+  else (match remove_one x l' with
+        | Some r -> Some (y :: r)
+        | None -> None)
+
+(** val sub_multiset : (n * n) list -> (n * n) list -> bool **)
+
+let rec sub_multiset a b =
+  match a with
+  | [] -> true
+  | x :: a' ->
+    (match remove_one x b with
+     | Some b' -> sub_multiset a' b'
+     | None -> false)
+
+(** val chk_blocks_tree : block -> bool **)
+
+let rec chk_blocks_tree b =
+  let { b_values = _; b_inner = _; b_labels = _; b_reg = _; b_mret = _;
+    b_ctx = ctx; b_kids = kids } = b
+  in
+  let rec go = function
+  | [] -> true
+  | k :: ks' ->
+    (&&)
+      ((&&) (sub_multiset (stack_exts k.b_ctx) (stack_exts ctx))
+        (chk_blocks_tree k)) (go ks')
+  in go kids
+
+(** val all_fns :
+    (fn_decl -> block -> bool) -> fn_decl list -> block list -> bool **)
+
+let rec all_fns chk fs roots =
+  match fs with
+  | [] -> (match roots with
+           | [] -> true
+           | _ :: _ -> false)
+  | f :: fs' ->
+    (match roots with
+     | [] -> false
+     | r :: roots' -> (&&) (chk f r) (all_fns chk fs' roots'))
+
+(** val accepted_only : output -> bool -> bool **)
+
+let accepted_only o b =
+  match o.o_errors with
+  | [] -> b
+  | _ :: _ -> true
+
+(** val chk_C19_order : program -> output -> bool **)
+
+let chk_C19_order p o =
+  accepted_only o (all_fns chk_order_fn (functions_of p) o.o_fns)
+
+(** val chk_C19_types : program -> output -> bool **)
+
+let chk_C19_types p o =
+  accepted_only o (all_fns chk_types_fn (functions_of p) o.o_fns)
+
+(** val chk_C19_blocks : program -> output -> bool **)
+
+let chk_C19_blocks _ o =
+  accepted_only o (forallb chk_blocks_tree o.o_fns)
+
+(** val chk_C19 : program -> output -> bool **)
+
+let chk_C19 p o =
+  (&&) ((&&) (chk_C19_order p o) (chk_C19_types p o)) (chk_C19_blocks p o)
+
+(** val sfx : string -> n **)
+
+let sfx n0 =
+  match split_dot n0 with
+  | [] -> N0
+  | _ :: l ->
+    (match l with
+     | [] -> N0
+     | b :: l0 -> (match l0 with
+                   | [] -> parse_u64_or_0 b
+                   | _ :: _ -> N0))
+
+(** val two32 : n **)
+
+let two32 =
+  Npos (XO (XO (XO (XO (XO (XO (XO (XO (XO (XO (XO (XO (XO (XO (XO (XO (XO
+    (XO (XO (XO (XO (XO (XO (XO (XO (XO (XO (XO (XO (XO (XO (XO
+    XH))))))))))))))))))))))))))))))))
+
+(** val name_ok : ident -> bool **)
+
+let name_ok x =
+  N.ltb (sfx x.iname) two32
+
+(** val walk_stmt :
+    (bool -> bool -> stmt -> bool) -> (bool -> ifbody -> bool) -> bool ->
+    bool -> stmt -> bool **)
+
+let walk_stmt chk chkb =
+  let rec walk_stmt0 brk inl st =
+    (&&) (chk brk inl st)
+      (match st with
+       | SIf i -> walk_if0 inl i
+       | SLoop body -> forallb (walk_stmt0 true true) body
+       | _ -> true)
+  and walk_if0 inl = function
+  | IfS (_, body, els, elif) ->
+    (&&)
+      ((&&) (walk_body inl body)
+        (match els with
+         | Some b -> walk_body inl b
+         | None -> true))
+      (match elif with
+       | Some i' -> walk_if0 inl i'
+       | None -> true)
+  and walk_body inl b =
+    (&&) (chkb inl b)
+      (match b with
+       | IBIf ss -> forallb (walk_stmt0 false inl) ss
+       | IBLoop ss -> forallb (walk_stmt0 true inl) ss)
+  in walk_stmt0
+
+(** val walk_if :
+    (bool -> bool -> stmt -> bool) -> (bool -> ifbody -> bool) -> bool ->
+    ifstmt -> bool **)
+
+let walk_if chk chkb =
+  let rec walk_stmt0 brk inl st =
+    (&&) (chk brk inl st)
+      (match st with
+       | SIf i -> walk_if0 inl i
+       | SLoop body -> forallb (walk_stmt0 true true) body
+       | _ -> true)
+  and walk_if0 inl = function
+  | IfS (_, body, els, elif) ->
+    (&&)
+      ((&&) (walk_body inl body)
+        (match els with
+         | Some b -> walk_body inl b
+         | None -> true))
+      (match elif with
+       | Some i' -> walk_if0 inl i'
+       | None -> true)
+  and walk_body inl b =
+    (&&) (chkb inl b)
+      (match b with
+       | IBIf ss -> forallb (walk_stmt0 false inl) ss
+       | IBLoop ss -> forallb (walk_stmt0 true inl) ss)
+  in walk_if0
+
+(** val walk_fn_stmt :
+    (bool -> bool -> stmt -> bool) -> (bool -> ifbody -> bool) -> (stmt ->
+    bool) -> stmt -> bool **)
+
+let walk_fn_stmt chk chkb chk_fn st =
+  (&&) (chk_fn st)
+    (match st with
+     | SIf i -> walk_if chk chkb false i
+     | SLoop body -> forallb (walk_stmt chk chkb true true) body
+     | _ -> true)
+
+(** val chk_kind : bool -> bool -> stmt -> bool **)
+
+let chk_kind brk _ = function
+| SExprStmt _ -> false
+| SBreak -> brk
+| SContinue -> brk
+| _ -> true
+
+(** val chk_kind_fn : stmt -> bool **)
+
+let chk_kind_fn = function
+| SBreak -> false
+| SContinue -> false
+| _ -> true
+
+(** val any_body : bool -> ifbody -> bool **)
+
+let any_body _ _ =
+  true
+
+(** val kinded_fn : fn_decl -> bool **)
+
+let kinded_fn f =
+  forallb (walk_fn_stmt chk_kind any_body chk_kind_fn) f.fn_body
+
+(** val any_stmt : bool -> bool -> stmt -> bool **)
+
+let any_stmt _ _ _ =
+  true
+
+(** val chk_loop_body : bool -> ifbody -> bool **)
+
+let chk_loop_body inl = function
+| IBIf _ -> true
+| IBLoop _ -> inl
+
+(** val loops_fn : fn_decl -> bool **)
+
+let loops_fn f =
+  forallb (walk_fn_stmt any_stmt chk_loop_body (fun _ -> true)) f.fn_body
+
+(** val chk_name : bool -> bool -> stmt -> bool **)
+
+let chk_name _ _ = function
+| SLet (x, _, _, _) -> name_ok x
+| _ -> true
+
+(** val names_fn : fn_decl -> bool **)
+
+let names_fn f =
+  (&&)
+    ((&&) (forallb (fun p -> name_ok (fst p)) f.fn_params)
+      (forallb (walk_fn_stmt chk_name any_body (chk_name false false))
+        f.fn_body)) (N.ltb (N.of_nat (size_fn f)) two32)
+
+(** val fn_in_domain_b : fn_decl -> bool **)
+
+let fn_in_domain_b f =
+  (&&) ((&&) (kinded_fn f) (loops_fn f)) (names_fn f)
+
+(** val in_domain_b : program -> bool **)
+
+let in_domain_b p =
+  forallb fn_in_domain_b (functions_of p)
 
 type json =
 | JNull
